@@ -7,4 +7,2557 @@ import PyElf.Proofs.Fixed
 namespace PyElf.Proofs
 open PyElf PyElf.Spec PyElf.Model
 
+/-! ### generic `Except` / list lemmas -/
+
+theorem mapM_ok_of_forall {α β : Type} (f : α → R β) :
+    ∀ (l : List α) (ys : List β), ys.length = l.length →
+      (∀ i (h1 : i < l.length) (h2 : i < ys.length), f l[i] = .ok ys[i]) → l.mapM f = .ok ys := by
+  intro l
+  induction l with
+  | nil => intro ys hl _; cases ys <;> simp_all [pure, Except.pure]
+  | cons a l ih =>
+    intro ys hl h
+    cases ys with
+    | nil => simp at hl
+    | cons y ys =>
+      have h0 := h 0 (by simp) (by simp)
+      simp only [List.getElem_cons_zero] at h0
+      have ht := ih ys (by simpa using hl) (fun i h1 h2 => by
+        have := h (i + 1) (by simp; omega) (by simp; omega)
+        simpa using this)
+      simp [List.mapM_cons, h0, ht, bind, Except.bind, pure, Except.pure]
+
+theorem mapM_ok_inv {α β : Type} (f : α → R β) :
+    ∀ (l : List α) (ys : List β), l.mapM f = .ok ys →
+      ys.length = l.length ∧ ∀ i (h1 : i < l.length) (h2 : i < ys.length), f l[i] = .ok ys[i] := by
+  intro l
+  induction l with
+  | nil =>
+    intro ys h
+    simp [pure, Except.pure] at h
+    subst h
+    simp
+  | cons a l ih =>
+    intro ys h
+    rw [List.mapM_cons] at h
+    cases ha : f a with
+    | error e => simp [ha, bind, Except.bind] at h
+    | ok y =>
+      cases hl : l.mapM f with
+      | error e => simp [ha, hl, bind, Except.bind] at h
+      | ok ys' =>
+        simp [ha, hl, bind, Except.bind, pure, Except.pure] at h
+        subst h
+        obtain ⟨h1, h2⟩ := ih ys' hl
+        refine ⟨by simp [h1], ?_⟩
+        intro i hi1 hi2
+        cases i with
+        | zero => simpa using ha
+        | succ j =>
+          simp only [List.getElem_cons_succ]
+          exact h2 j (by simpa using hi1) (by simpa using hi2)
+
+/-- `List.range n |>.mapM f` with every call succeeding -/
+theorem range_mapM_ok {β : Type} (f : Nat → R β) (n : Nat) (xs : List β) (hl : xs.length = n)
+    (h : ∀ i (hi : i < xs.length), f i = .ok xs[i]) : (List.range n).mapM f = .ok xs := by
+  apply mapM_ok_of_forall
+  · simp [hl]
+  · intro i h1 h2
+    simpa using h i h2
+
+/-! ### name map (`lookup_exact`) -/
+
+/-- indices (counted from `i`) of the entries of `names` equal to `name` -/
+def idxs (name : Bytes) : List Bytes → Nat → List Nat
+  | [], _ => []
+  | nm :: rest, i => if nm == name then i :: idxs name rest (i + 1) else idxs name rest (i + 1)
+
+theorem getLast?_cons_or {α} (a : α) (l : List α) : (a :: l).getLast? = l.getLast?.or (some a) := by
+  cases l with
+  | nil => simp
+  | cons b l =>
+    rw [List.getLast?_cons_cons]
+    cases h : (b :: l).getLast? with
+    | none => simp at h
+    | some x => simp
+
+def upd (m : List (Bytes × Nat)) (nm : Bytes) (i : Nat) : List (Bytes × Nat) :=
+  m.map (fun (k, v) => if k == nm then (k, i) else (k, v))
+
+theorem upd_find_same (nm : Bytes) (i : Nat) : ∀ (m : List (Bytes × Nat)), m.any (·.1 == nm) = true →
+    ((upd m nm i).find? (·.1 == nm)).map (·.2) = some i := by
+  intro m
+  induction m with
+  | nil => intro h; simp at h
+  | cons p m ih =>
+    intro hany
+    obtain ⟨pk, pv⟩ := p
+    by_cases hp : pk = nm
+    · subst hp; simp [upd]
+    · have hp' : (pk == nm) = false := by simpa using hp
+      simp only [List.any_cons, hp', Bool.false_or] at hany
+      have := ih hany
+      simp only [upd] at this ⊢
+      simp only [List.map_cons, hp', Bool.false_eq_true, if_false, List.find?_cons]
+      exact this
+
+theorem upd_find_other (nm name : Bytes) (i : Nat) (hne : nm ≠ name) : ∀ (m : List (Bytes × Nat)),
+    ((upd m nm i).find? (·.1 == name)).map (·.2) = (m.find? (·.1 == name)).map (·.2) := by
+  intro m
+  induction m with
+  | nil => simp [upd]
+  | cons p m ih =>
+    obtain ⟨pk, pv⟩ := p
+    simp only [upd] at ih ⊢
+    by_cases hp : pk = nm
+    · subst hp
+      have hp' : (pk == name) = false := by simpa using hne
+      simp only [List.map_cons, beq_self_eq_true, if_true, List.find?_cons, hp']
+      exact ih
+    · have hp' : (pk == nm) = false := by simpa using hp
+      simp only [List.map_cons, hp', Bool.false_eq_true, if_false, List.find?_cons]
+      split
+      · rfl
+      · exact ih
+
+theorem nameMap_go_find (name : Bytes) :
+    ∀ (secs : List (String × Bytes × Val)) (i : Nat) (m : List (Bytes × Nat)),
+      ((sectionNameMap.go secs i m).find? (·.1 == name)).map (·.2)
+        = (idxs name (secs.map (·.2.1)) i).getLast?.or ((m.find? (·.1 == name)).map (·.2)) := by
+  intro secs
+  induction secs with
+  | nil => intro i m; simp [sectionNameMap.go, idxs]
+  | cons s rest ih =>
+    intro i m
+    obtain ⟨k, nm, v⟩ := s
+    rw [sectionNameMap.go, ih]
+    simp only [List.map_cons, idxs]
+    change _ = Option.or (List.getLast? (if (nm == name) = true then _ else _)) _
+    by_cases hn : nm = name
+    · subst hn
+      simp only [beq_self_eq_true, if_true, getLast?_cons_or]
+      have : ((if m.any (·.1 == nm) then upd m nm i else m ++ [(nm, i)]).find? (·.1 == nm)).map (·.2)
+          = some i := by
+        split
+        · rename_i hany
+          exact upd_find_same nm i m hany
+        · rename_i hany
+          have hnone : m.find? (·.1 == nm) = none := by
+            simp only [List.find?_eq_none]
+            intro x hx hx'
+            exact hany (List.any_eq_true.2 ⟨x, hx, hx'⟩)
+          simp [List.find?_append, hnone]
+      simp only [upd] at this
+      rw [this]
+      cases (idxs nm (rest.map (·.2.1)) (i + 1)).getLast? <;> simp
+    · have hn' : (nm == name) = false := by simpa using hn
+      simp only [hn', Bool.false_eq_true, if_false]
+      congr 1
+      split
+      · exact upd_find_other nm name i hn m
+      · simp [List.find?_append, hn']
+
+theorem idxs_eq_filter {α : Type} (f : α → Bytes) (name : Bytes) :
+    ∀ (l : List α) (i : Nat),
+      (((List.range' i l.length).zip l).filter (fun p => f p.2 == name)).map (·.1)
+        = idxs name (l.map f) i := by
+  intro l
+  induction l with
+  | nil => intro i; simp [idxs]
+  | cons a l ih =>
+    intro i
+    simp only [List.length_cons, List.range'_succ, List.zip_cons_cons, List.map_cons, idxs,
+      List.filter_cons]
+    split <;> simp [ih]
+
+/-! ### what `observe` returns -/
+
+def obsSec (env : Env) (d : ElfDesc) (s : SecDesc) : R (String × Bytes × Val) := do
+  let h ← d.S.Elf_Shdr.decodeRaw env [] s.raw
+  return (kindOf (← h.getField "sh_type") s.name, s.name, h)
+
+def obsSeg (env : Env) (d : ElfDesc) (p : Fields) : R (String × Val) := do
+  let h ← d.S.Elf_Phdr.decodeRaw env [] (.record p)
+  return (segKindOf (← h.getField "p_type"), h)
+
+theorem observe_inv {env : Env} {d : ElfDesc} {obs : ElfObs} (ho : d.observe env = .ok obs) :
+    d.S.Elf_Ehdr.decodeRaw env [] d.ehdrRaw = .ok obs.header ∧
+    d.sections.mapM (obsSec env d) = .ok obs.sections ∧
+    d.segments.mapM (obsSeg env d) = .ok obs.segments := by
+  unfold ElfDesc.observe at ho
+  change (do
+    let header ← d.S.Elf_Ehdr.decodeRaw env [] d.ehdrRaw
+    let sections ← d.sections.mapM (obsSec env d)
+    let segments ← d.segments.mapM (obsSeg env d)
+    (pure ⟨header, sections, segments⟩ : R ElfObs)) = .ok obs at ho
+  cases h1 : d.S.Elf_Ehdr.decodeRaw env [] d.ehdrRaw with
+  | error e => simp [h1, bind, Except.bind] at ho
+  | ok hd =>
+    cases h2 : d.sections.mapM (obsSec env d) with
+    | error e => simp [h1, h2, bind, Except.bind] at ho
+    | ok ss =>
+      cases h3 : d.segments.mapM (obsSeg env d) with
+      | error e => simp [h1, h2, h3, bind, Except.bind] at ho
+      | ok gs =>
+        simp [h1, h2, h3, bind, Except.bind, pure, Except.pure] at ho
+        subst ho
+        exact ⟨rfl, rfl, rfl⟩
+
+theorem obsSec_name {env : Env} {d : ElfDesc} {s : SecDesc} {r : String × Bytes × Val}
+    (h : obsSec env d s = .ok r) : r.2.1 = s.name := by
+  unfold obsSec at h
+  cases h1 : d.S.Elf_Shdr.decodeRaw env [] s.raw with
+  | error e => simp [h1, bind, Except.bind] at h
+  | ok hd =>
+    cases h2 : hd.getField "sh_type" with
+    | error e => simp [h1, h2, bind, Except.bind] at h
+    | ok t =>
+      simp [h1, h2, bind, Except.bind, pure, Except.pure] at h
+      subst h; rfl
+
+theorem observe_names {env : Env} {d : ElfDesc} {obs : ElfObs} (ho : d.observe env = .ok obs) :
+    obs.sections.map (·.2.1) = d.sections.map (·.name) := by
+  obtain ⟨-, h2, -⟩ := observe_inv ho
+  obtain ⟨hl, hi⟩ := mapM_ok_inv _ _ _ h2
+  apply List.ext_getElem
+  · simp [hl]
+  · intro i h1 h2'
+    simp only [List.getElem_map]
+    exact obsSec_name (hi i (by simpa using h2') (by simpa using h1))
+
+theorem lookup_exact_aux {env : Env} {d : ElfDesc} {obs : ElfObs} (ho : d.observe env = .ok obs)
+    (name : Bytes) :
+    ((sectionNameMap obs.sections).find? (·.1 == name)).map (·.2) = d.indexOfName name := by
+  unfold sectionNameMap ElfDesc.indexOfName
+  rw [nameMap_go_find, observe_names ho]
+  simp only [List.find?_nil, Option.map_none, Option.or_none]
+  rw [List.range_eq_range', idxs_eq_filter (fun s : SecDesc => s.name)]
+
+theorem machineClass_snd_mem : ∀ p ∈ machineClass, p.2 ∈ machineClasses := by decide
+
+theorem machine_factor_aux (m : String) :
+    ((machineClass.find? (·.1 == m)).map (·.2)).getD "default" ∈ machineClasses := by
+  cases h : machineClass.find? (·.1 == m) with
+  | none => simp [machineClasses]
+  | some p => exact machineClass_snd_mem p (List.mem_of_find?_eq_some h)
+
+/-! ### field access in decoded fixed structs -/
+
+theorem get?_set_same (obj : Fields) (k : String) (v : Val) : Fields.get? (Fields.set obj k v) k = some v := by
+  induction obj with
+  | nil => simp [Fields.set, Fields.get?]
+  | cons p obj ih =>
+    obtain ⟨k', v'⟩ := p
+    by_cases h : k' = k
+    · simp [Fields.set, Fields.get?, h]
+    · simp [Fields.set, Fields.get?, h, ih]
+
+theorem get?_set_other (obj : Fields) (k k' : String) (v : Val) (hne : k ≠ k') :
+    Fields.get? (Fields.set obj k v) k' = Fields.get? obj k' := by
+  induction obj with
+  | nil => simp [Fields.set, Fields.get?, hne]
+  | cons p obj ih =>
+    obtain ⟨k0, v0⟩ := p
+    by_cases h : k0 = k
+    · subst h; simp [Fields.set, Fields.get?, hne]
+    · by_cases h' : k0 = k'
+      · subst h'; simp [Fields.set, Fields.get?, h]
+      · simp [Fields.set, Fields.get?, h, h', ih]
+
+def fieldNames : ConFields → List String
+  | .nil => []
+  | .cons (some nm) _ _ rest => nm :: fieldNames rest
+  | .cons none _ _ rest => fieldNames rest
+
+/-- the construct of the field named `k`, when exactly one field bears that name -/
+def fieldCon : ConFields → String → Option Con
+  | .nil, _ => none
+  | .cons (some nm) _ c rest, k =>
+      if nm = k then (if k ∈ fieldNames rest then none else some c) else fieldCon rest k
+  | .cons none _ _ rest, k => fieldCon rest k
+
+theorem decodeRaw_get_notin (env : Env) (k : String) :
+    ∀ (fs : ConFields) (raw obj ctx obj' ctx' : Fields), k ∉ fieldNames fs →
+      ConFields.decodeRaw env fs raw obj ctx = .ok (obj', ctx') → Fields.get? obj' k = Fields.get? obj k
+  | .nil, raw, obj, ctx, obj', ctx', _, h => by
+    simp [ConFields.decodeRaw] at h
+    rw [h.1]
+  | .cons name embed c rest, raw, obj, ctx, obj', ctx', hk, h => by
+    have ih := decodeRaw_get_notin env k rest
+    cases name with
+    | none =>
+      rw [ConFields.decodeRaw] at h
+      simp only [fieldNames] at hk
+      cases hv : Con.decodeRaw env c ctx Val.none with
+      | error e => simp [hv, bind, Except.bind] at h
+      | ok v =>
+        simp only [hv, bind, Except.bind] at h
+        exact ih _ _ _ _ _ hk h
+    | some nm =>
+      rw [ConFields.decodeRaw] at h
+      simp only [fieldNames, List.mem_cons, not_or] at hk
+      cases hv : Con.decodeRaw env c ctx ((Fields.get? raw nm).getD Val.none) with
+      | error e => simp [hv, bind, Except.bind] at h
+      | ok v =>
+        simp only [hv, bind, Except.bind] at h
+        rw [ih _ _ _ _ _ hk.2 h, get?_set_other _ _ _ _ (Ne.symm hk.1)]
+
+theorem decodeRaw_get (env : Env) (k : String) (c : Con) :
+    ∀ (fs : ConFields) (raw obj ctx obj' ctx' : Fields), fieldCon fs k = some c →
+      ConFields.decodeRaw env fs raw obj ctx = .ok (obj', ctx') →
+      ∃ ctx0 v, Con.decodeRaw env c ctx0 ((Fields.get? raw k).getD .none) = .ok v ∧
+        Fields.get? obj' k = some v
+  | .nil, raw, obj, ctx, obj', ctx', hf, _ => by simp [fieldCon] at hf
+  | .cons name embed c' rest, raw, obj, ctx, obj', ctx', hf, h => by
+    have ih := decodeRaw_get env k c rest
+    cases name with
+    | none =>
+      rw [ConFields.decodeRaw] at h
+      simp only [fieldCon] at hf
+      cases hv : Con.decodeRaw env c' ctx Val.none with
+      | error e => simp [hv, bind, Except.bind] at h
+      | ok v =>
+        simp only [hv, bind, Except.bind] at h
+        exact ih _ _ _ _ _ hf h
+    | some nm =>
+      rw [ConFields.decodeRaw] at h
+      simp only [fieldCon] at hf
+      cases hv : Con.decodeRaw env c' ctx ((Fields.get? raw nm).getD Val.none) with
+      | error e => simp [hv, bind, Except.bind] at h
+      | ok v =>
+        simp only [hv, bind, Except.bind] at h
+        by_cases hnm : nm = k
+        · subst hnm
+          simp only [if_true] at hf
+          split at hf
+          · cases hf
+          · rename_i hnot
+            cases hf
+            refine ⟨ctx, v, hv, ?_⟩
+            rw [decodeRaw_get_notin env nm _ _ _ _ _ _ hnot h, get?_set_same]
+        · simp only [hnm, if_false] at hf
+          exact ih _ _ _ _ _ hf h
+
+theorem encodeRaw_field (k : String) (c : Con) :
+    ∀ (fs : ConFields) (raw : Fields) (bs : Bytes), fieldCon fs k = some c →
+      ConFields.encodeRaw fs raw = some bs →
+      ∃ b, c.encodeRaw ((Fields.get? raw k).getD .none) = some b
+  | .nil, raw, bs, hf, _ => by simp [fieldCon] at hf
+  | .cons name embed c' rest, raw, bs, hf, h => by
+    have ih := encodeRaw_field k c rest
+    cases name with
+    | none =>
+      rw [ConFields.encodeRaw] at h
+      obtain ⟨a, b, ha, hb, -⟩ := bind2_eq_some h
+      simp only [fieldCon] at hf
+      exact ih _ _ hf hb
+    | some nm =>
+      rw [ConFields.encodeRaw] at h
+      obtain ⟨a, b, ha, hb, -⟩ := bind2_eq_some h
+      simp only [fieldCon] at hf
+      by_cases hnm : nm = k
+      · subst hnm
+        simp only [if_true] at hf
+        split at hf
+        · cases hf
+        · cases hf; exact ⟨a, ha⟩
+      · simp only [hnm, if_false] at hf
+        exact ih _ _ hf hb
+
+/-- a plain unsigned field decodes to the raw natural number that was encoded -/
+theorem uint_field {env : Env} {fs : ConFields} {k : String} {n : Nat} {le : Bool}
+    (hf : fieldCon fs k = some (.uint n le)) {raw : Fields} {bs : Bytes}
+    (he : (Con.struct fs).encodeRaw (.record raw) = some bs) {v : Val} {ctx : Fields}
+    (hd : (Con.struct fs).decodeRaw env ctx (.record raw) = .ok v) :
+    ∃ z : Nat, z < 256 ^ n ∧ Fields.get? raw k = some (.int z) ∧ v.getField k = .ok (.int z) := by
+  rw [Con.encodeRaw] at he
+  rw [Con.decodeRaw] at hd
+  cases hd' : ConFields.decodeRaw env fs raw [] [] with
+  | error e => simp [hd', bind, Except.bind] at hd
+  | ok oc =>
+    obtain ⟨obj', ctx'⟩ := oc
+    simp [hd', bind, Except.bind, pure, Except.pure] at hd
+    subst hd
+    obtain ⟨b, hb⟩ := encodeRaw_field k _ fs raw bs hf he
+    obtain ⟨ctx0, v, hv, hg⟩ := decodeRaw_get env k _ fs raw [] [] obj' ctx' hf hd'
+    cases hr : Fields.get? raw k with
+    | none => simp [hr, Con.encodeRaw] at hb
+    | some x =>
+      rw [hr] at hb hv
+      simp only [Option.getD_some] at hb hv
+      cases x <;> simp only [Con.encodeRaw, reduceCtorEq] at hb
+      rename_i z
+      split at hb
+      · rename_i hz
+        refine ⟨z.toNat, toNat_lt_pow hz.1 hz.2, ?_, ?_⟩
+        · rw [Int.toNat_of_nonneg hz.1]
+        · simp only [Con.decodeRaw] at hv
+          cases hv
+          simp [Val.getField, Fields.getR, hg, Int.toNat_of_nonneg hz.1]
+      · cases hb
+
+/-! ### regions and layout -/
+
+theorem mapM_some_inv {α β : Type} (f : α → Option β) :
+    ∀ (l : List α) (ys : List β), l.mapM f = some ys →
+      ys.length = l.length ∧ ∀ i (h1 : i < l.length) (h2 : i < ys.length), f l[i] = some ys[i] := by
+  intro l
+  induction l with
+  | nil =>
+    intro ys h
+    simp at h
+    subst h
+    simp
+  | cons a l ih =>
+    intro ys h
+    rw [List.mapM_cons] at h
+    cases ha : f a with
+    | none => simp [ha] at h
+    | some y =>
+      cases hl : l.mapM f with
+      | none => simp [ha, hl] at h
+      | some ys' =>
+        simp [ha, hl] at h
+        subst h
+        obtain ⟨h1, h2⟩ := ih ys' hl
+        refine ⟨by simp [h1], ?_⟩
+        intro i hi1 hi2
+        cases i with
+        | zero => simpa using ha
+        | succ j =>
+          simp only [List.getElem_cons_succ]
+          exact h2 j (by simpa using hi1) (by simpa using hi2)
+
+theorem mem_indexed_regs (off sz : Nat) (bs : List Bytes) (i : Nat) (hi : i < bs.length) :
+    (off + i * sz, bs[i]) ∈ ((List.range bs.length).zip bs).map (fun (p : Nat × Bytes) => (off + p.1 * sz, p.2)) := by
+  rw [List.mem_map]
+  refine ⟨(i, bs[i]), ?_, rfl⟩
+  rw [List.mem_iff_getElem]
+  refine ⟨i, by simpa using hi, ?_⟩
+  simp
+
+structure LayoutFacts (d : ElfDesc) (bytes : Bytes) : Prop where
+  ehdr : ∃ eh, d.S.Elf_Ehdr.encodeRaw d.ehdrRaw = some eh ∧ readN bytes 0 eh.length = eh
+  shdr : ∀ i (hi : i < d.sections.length), ∃ b, d.S.Elf_Shdr.encodeRaw (d.sections[i]).raw = some b ∧
+           readN bytes (d.shoff + i * d.shentsize) b.length = b
+  phdr : ∀ i (hi : i < d.segments.length), ∃ b, d.S.Elf_Phdr.encodeRaw (.record d.segments[i]) = some b ∧
+           readN bytes (d.phoff + i * d.phentsize) b.length = b
+  body : ∀ s ∈ d.sections, ∀ b, s.body = some b → readN bytes (getNatD s.hdr "sh_offset") b.length = b
+
+theorem layout_facts {d : ElfDesc} {bytes : Bytes} (hl : Layout d bytes) : LayoutFacts d bytes := by
+  obtain ⟨rs, hrs, hall⟩ := hl
+  unfold ElfDesc.regions at hrs
+  cases h1 : d.S.Elf_Ehdr.encodeRaw d.ehdrRaw with
+  | none => simp [h1] at hrs
+  | some eh =>
+    cases h2 : d.sections.mapM (fun s => d.S.Elf_Shdr.encodeRaw s.raw) with
+    | none => simp [h1, h2] at hrs
+    | some shs =>
+      cases h3 : d.segments.mapM (fun p => d.S.Elf_Phdr.encodeRaw (.record p)) with
+      | none => simp [h1, h2, h3] at hrs
+      | some phs =>
+        simp only [h1, h2, h3, Option.bind_eq_bind, Option.bind_some, Option.pure_def, Option.some.injEq] at hrs
+        obtain ⟨hl2, hi2⟩ := mapM_some_inv _ _ _ h2
+        obtain ⟨hl3, hi3⟩ := mapM_some_inv _ _ _ h3
+        subst hrs
+        refine ⟨⟨eh, h1, hall (0, eh) (by simp)⟩, ?_, ?_, ?_⟩
+        · intro i hi
+          have hi' : i < shs.length := by omega
+          refine ⟨shs[i], hi2 i hi hi', ?_⟩
+          have hm := mem_indexed_regs d.shoff d.shentsize shs i hi'
+          exact hall _ (by
+            simp only [List.cons_append, List.mem_cons, List.mem_append]
+            right; left; left; exact hm)
+        · intro i hi
+          have hi' : i < phs.length := by omega
+          refine ⟨phs[i], hi3 i hi hi', ?_⟩
+          have hm := mem_indexed_regs d.phoff d.phentsize phs i hi'
+          exact hall _ (by
+            simp only [List.cons_append, List.mem_cons, List.mem_append]
+            right; left; right; exact hm)
+        · intro s hs b hb
+          by_cases hbe : b = []
+          · subst hbe; simp [readN]
+          · exact hall (getNatD s.hdr "sh_offset", b) (by
+              simp only [List.cons_append, List.mem_cons, List.mem_append]
+              right; right
+              rw [List.mem_filter]
+              refine ⟨?_, by simpa using hbe⟩
+              rw [List.mem_filterMap]
+              exact ⟨s, hs, by simp [hb]⟩)
+
+theorem drop_of_readN {data : Bytes} {pos : Nat} {bs : Bytes} (h : readN data pos bs.length = bs) :
+    data.drop pos = bs ++ data.drop (pos + bs.length) := by
+  have : data.drop pos = (data.drop pos).take bs.length ++ (data.drop pos).drop bs.length :=
+    (List.take_append_drop _ _).symm
+  rw [this, List.drop_drop]
+  unfold readN at h
+  rw [h]
+
+theorem readN_le_length {data : Bytes} {pos : Nat} {bs : Bytes} (h : readN data pos bs.length = bs) :
+    bs = [] ∨ pos + bs.length ≤ data.length := by
+  have hl := readN_length data pos bs.length
+  rw [h] at hl
+  by_cases hb : bs.length = 0
+  · left; exact List.length_eq_zero_iff.1 hb
+  · right; omega
+
+/-- a fixed-shape struct whose encoding sits at `pos` parses to the decoding of the raw values -/
+theorem structParse_layout (env : Env) (c : Con) (hc : c.fixed = true) (raw : Val) (bs : Bytes)
+    (he : c.encodeRaw raw = some bs) (data : Bytes) (pos : Nat)
+    (hr : readN data pos bs.length = bs) :
+    structParse env c data pos = (c.decodeRaw env [] raw).map (fun v => (v, pos + bs.length)) := by
+  unfold structParse
+  rw [rt_con env c hc raw bs he data pos _ [] (drop_of_readN hr)]
+  cases c.decodeRaw env [] raw <;> rfl
+
+theorem structParseAt_layout (env : Env) (c : Con) (hc : c.fixed = true) (raw : Val) (bs : Bytes)
+    (he : c.encodeRaw raw = some bs) (data : Bytes) (pos : Nat)
+    (hr : readN data pos bs.length = bs) (hpos : pos < 2 ^ 63) :
+    structParseAt env c data pos = (c.decodeRaw env [] raw).map (fun v => (v, pos + bs.length)) := by
+  unfold structParseAt
+  have : ¬ pos ≥ 2 ^ 63 := by omega
+  simp only [this, if_false]
+  rw [← structParse_layout env c hc raw bs he data pos hr]
+
+/-! ### the Spec structures as closed terms -/
+
+def shdrFields (c : ElfCfg) : ConFields :=
+  let le := c.le
+  let w := c.cls / 8
+  let word := Con.uint 4 le
+  let addr := Con.uint w le
+  mkFields [f "sh_name" word, f "sh_type" (enumOf word (shTypeTable c.mclass)), f "sh_flags" addr,
+            f "sh_addr" addr, f "sh_offset" addr, f "sh_size" addr, f "sh_link" word, f "sh_info" word,
+            f "sh_addralign" addr, f "sh_entsize" addr]
+
+theorem shdr_eq (c : ElfCfg) : (elfStructs c).Elf_Shdr = .struct (shdrFields c) := rfl
+
+theorem shdr_field_word (c : ElfCfg) (k : String) (hk : k ∈ ["sh_name", "sh_link", "sh_info"]) :
+    fieldCon (shdrFields c) k = some (.uint 4 c.le) := by
+  simp only [List.mem_cons, List.not_mem_nil, or_false] at hk
+  rcases hk with rfl | rfl | rfl <;> simp [shdrFields, mkFields, f, fieldCon, fieldNames]
+
+theorem shdr_field_addr (c : ElfCfg) (k : String)
+    (hk : k ∈ ["sh_flags", "sh_addr", "sh_offset", "sh_size", "sh_addralign", "sh_entsize"]) :
+    fieldCon (shdrFields c) k = some (.uint (c.cls / 8) c.le) := by
+  simp only [List.mem_cons, List.not_mem_nil, or_false] at hk
+  rcases hk with rfl | rfl | rfl | rfl | rfl | rfl <;> simp [shdrFields, mkFields, f, fieldCon, fieldNames]
+
+theorem shdr_field_type (c : ElfCfg) :
+    fieldCon (shdrFields c) "sh_type" = some (.enum (.uint 4 c.le) (shTypeTable c.mclass) true) := by
+  simp [shdrFields, mkFields, f, fieldCon, fieldNames, enumOf]
+
+theorem getNat_of_getField {v : Val} {k : String} {z : Nat} (h : v.getField k = .ok (.int (z : Int))) :
+    v.getNat k = .ok z := by
+  simp [Val.getNat, h, bind, Except.bind, Val.asNat, Val.asInt]
+
+theorem fieldNat_of_getField {v : Val} {k : String} {z : Nat} (h : v.getField k = .ok (.int (z : Int))) :
+    fieldNat v k = z := by
+  simp [fieldNat, h]
+
+theorem struct_field_exists {env : Env} {fs : ConFields} {k : String} {c : Con}
+    (hf : fieldCon fs k = some c) {raw : Fields} {v : Val} {ctx : Fields}
+    (hd : (Con.struct fs).decodeRaw env ctx (.record raw) = .ok v) :
+    ∃ ctx0 x, c.decodeRaw env ctx0 ((Fields.get? raw k).getD .none) = .ok x ∧ v.getField k = .ok x := by
+  rw [Con.decodeRaw] at hd
+  cases hd' : ConFields.decodeRaw env fs raw [] [] with
+  | error e => simp [hd', bind, Except.bind] at hd
+  | ok oc =>
+    obtain ⟨obj', ctx'⟩ := oc
+    simp [hd', bind, Except.bind, pure, Except.pure] at hd
+    subst hd
+    obtain ⟨ctx0, x, hx, hg⟩ := decodeRaw_get env k _ fs raw [] [] obj' ctx' hf hd'
+    exact ⟨ctx0, x, hx, by simp [Val.getField, Fields.getR, hg]⟩
+
+/-! ### decoded section headers -/
+
+def shdrNatKeys : List String :=
+  ["sh_name", "sh_link", "sh_info", "sh_flags", "sh_addr", "sh_offset", "sh_size", "sh_addralign", "sh_entsize"]
+
+theorem shdr_field_nat (c : ElfCfg) (k : String) (hk : k ∈ shdrNatKeys) :
+    ∃ n, fieldCon (shdrFields c) k = some (.uint n c.le) := by
+  simp only [shdrNatKeys, List.mem_cons, List.not_mem_nil, or_false] at hk
+  rcases hk with rfl | rfl | rfl | rfl | rfl | rfl | rfl | rfl | rfl
+  · exact ⟨_, shdr_field_word c _ (by simp)⟩
+  · exact ⟨_, shdr_field_word c _ (by simp)⟩
+  · exact ⟨_, shdr_field_word c _ (by simp)⟩
+  all_goals exact ⟨_, shdr_field_addr c _ (by simp)⟩
+
+structure SecFacts (s : SecDesc) (h : Val) : Prop where
+  nat : ∀ k ∈ shdrNatKeys, h.getNat k = .ok (fieldNat h k)
+  raw : ∀ k ∈ shdrNatKeys, k ≠ "sh_name" → fieldNat h k = getNatD s.hdr k
+  name : fieldNat h "sh_name" = s.nameOff
+  ty : ∃ t, h.getField "sh_type" = .ok t
+
+theorem sec_facts {env : Env} {d : ElfDesc} {s : SecDesc} {b : Bytes} {h : Val}
+    (he : d.S.Elf_Shdr.encodeRaw s.raw = some b) (hd : d.S.Elf_Shdr.decodeRaw env [] s.raw = .ok h) :
+    SecFacts s h := by
+  have hS : d.S.Elf_Shdr = .struct (shdrFields d.cfg) := rfl
+  rw [hS] at he hd
+  unfold SecDesc.raw at he hd
+  have key : ∀ k ∈ shdrNatKeys, ∃ z : Nat,
+      Fields.get? (("sh_name", Val.int s.nameOff) :: s.hdr) k = some (.int z) ∧ h.getField k = .ok (.int z) := by
+    intro k hk
+    obtain ⟨n, hn⟩ := shdr_field_nat d.cfg k hk
+    obtain ⟨z, -, h1, h2⟩ := uint_field hn he hd
+    exact ⟨z, h1, h2⟩
+  refine ⟨?_, ?_, ?_, ?_⟩
+  · intro k hk
+    obtain ⟨z, -, h2⟩ := key k hk
+    rw [fieldNat_of_getField h2]; exact getNat_of_getField h2
+  · intro k hk hne
+    obtain ⟨z, h1, h2⟩ := key k hk
+    rw [fieldNat_of_getField h2]
+    have : Fields.get? s.hdr k = some (.int z) := by
+      simpa [Fields.get?, Ne.symm hne] using h1
+    simp [getNatD, this]
+  · obtain ⟨z, h1, h2⟩ := key "sh_name" (by simp [shdrNatKeys])
+    rw [fieldNat_of_getField h2]
+    simp [Fields.get?] at h1
+    omega
+  · obtain ⟨_, x, _, hx⟩ := struct_field_exists (shdr_field_type d.cfg) hd
+    exact ⟨x, hx⟩
+
+/-! ### the file header -/
+
+def identFields (le : Bool) : ConFields :=
+  let byte := Con.uint 1 le
+  mkFields [f "EI_MAG" (.array (lit 4) byte),
+            f "EI_CLASS" (enumOf byte "ENUM_EI_CLASS" false),
+            f "EI_DATA" (enumOf byte "ENUM_EI_DATA" false),
+            f "EI_VERSION" (enumOf byte "ENUM_E_VERSION"),
+            f "EI_OSABI" (enumOf byte "ENUM_EI_OSABI"),
+            f "EI_ABIVERSION" byte,
+            anon (.padding (lit 7) false)]
+
+def ehdrFields (c : ElfCfg) : ConFields :=
+  let le := c.le
+  let w := c.cls / 8
+  let half := Con.uint 2 le
+  let word := Con.uint 4 le
+  let addr := Con.uint w le
+  mkFields [
+      f "e_ident" (.struct (identFields le)),
+      f "e_type" (enumOf half "ENUM_E_TYPE"), f "e_machine" (enumOf half "ENUM_E_MACHINE"),
+      f "e_version" (enumOf word "ENUM_E_VERSION"), f "e_entry" addr, f "e_phoff" addr, f "e_shoff" addr,
+      f "e_flags" word, f "e_ehsize" half, f "e_phentsize" half, f "e_phnum" half, f "e_shentsize" half,
+      f "e_shnum" half, f "e_shstrndx" half]
+
+theorem ehdr_eq (c : ElfCfg) : (elfStructs c).Elf_Ehdr = .struct (ehdrFields c) := rfl
+
+def identRawFields (d : ElfDesc) : Fields :=
+  let g (k : String) : Val := (Fields.get? d.ehdr k).getD (.int 0)
+  [("EI_MAG", .list [.int 0x7f, .int 0x45, .int 0x4c, .int 0x46]),
+   ("EI_CLASS", .int (if d.cls = 32 then 1 else 2)),
+   ("EI_DATA", .int (if d.le then 1 else 2)),
+   ("EI_VERSION", g "EI_VERSION"), ("EI_OSABI", g "EI_OSABI"), ("EI_ABIVERSION", g "EI_ABIVERSION")]
+
+def ehdrRawFields (d : ElfDesc) : Fields :=
+  let n := d.sections.length
+  let m := d.segments.length
+  let g (k : String) : Val := (Fields.get? d.ehdr k).getD (.int 0)
+  [ ("e_ident", .record (identRawFields d)),
+    ("e_type", g "e_type"), ("e_machine", g "e_machine"), ("e_version", g "e_version"),
+    ("e_entry", g "e_entry"),
+    ("e_phoff", .int (if m = 0 then 0 else d.phoff)),
+    ("e_shoff", .int (if n = 0 then 0 else d.shoff)),
+    ("e_flags", g "e_flags"), ("e_ehsize", g "e_ehsize"),
+    ("e_phentsize", .int d.phentsize),
+    ("e_phnum", .int (if d.xPhnum || m ≥ 0xffff then 0xffff else m)),
+    ("e_shentsize", .int d.shentsize),
+    ("e_shnum", .int (if d.xShnum || n ≥ 0xff00 then 0 else n)),
+    ("e_shstrndx", .int (if d.xShstrndx || d.shstrndx ≥ 0xff00 then 0xffff else d.shstrndx))]
+
+theorem ehdrRaw_eq (d : ElfDesc) : d.ehdrRaw = .record (ehdrRawFields d) := rfl
+
+def ehdrHalfKeys : List String := ["e_ehsize", "e_phentsize", "e_phnum", "e_shentsize", "e_shnum", "e_shstrndx"]
+
+theorem ehdr_field_half (c : ElfCfg) (k : String) (hk : k ∈ ehdrHalfKeys) :
+    fieldCon (ehdrFields c) k = some (.uint 2 c.le) := by
+  simp only [ehdrHalfKeys, List.mem_cons, List.not_mem_nil, or_false] at hk
+  rcases hk with rfl | rfl | rfl | rfl | rfl | rfl <;>
+    simp [ehdrFields, mkFields, f, fieldCon, fieldNames]
+
+theorem ehdr_field_addr (c : ElfCfg) (k : String) (hk : k ∈ ["e_entry", "e_phoff", "e_shoff"]) :
+    fieldCon (ehdrFields c) k = some (.uint (c.cls / 8) c.le) := by
+  simp only [List.mem_cons, List.not_mem_nil, or_false] at hk
+  rcases hk with rfl | rfl | rfl <;> simp [ehdrFields, mkFields, f, fieldCon, fieldNames]
+
+theorem ehdr_field_type (c : ElfCfg) :
+    fieldCon (ehdrFields c) "e_type" = some (.enum (.uint 2 c.le) "ENUM_E_TYPE" true) := by
+  simp [ehdrFields, mkFields, f, fieldCon, fieldNames, enumOf]
+
+theorem ehdr_field_machine (c : ElfCfg) :
+    fieldCon (ehdrFields c) "e_machine" = some (.enum (.uint 2 c.le) "ENUM_E_MACHINE" true) := by
+  simp [ehdrFields, mkFields, f, fieldCon, fieldNames, enumOf]
+
+theorem ehdr_field_ident (c : ElfCfg) :
+    fieldCon (ehdrFields c) "e_ident" = some (.struct (identFields c.le)) := by
+  simp [ehdrFields, mkFields, f, fieldCon, fieldNames]
+
+theorem ident_field_osabi (le : Bool) :
+    fieldCon (identFields le) "EI_OSABI" = some (.enum (.uint 1 le) "ENUM_EI_OSABI" true) := by
+  simp [identFields, mkFields, f, anon, fieldCon, fieldNames, enumOf]
+
+structure HdrFacts (d : ElfDesc) (hdr : Val) : Prop where
+  shentsize : hdr.getNat "e_shentsize" = .ok d.shentsize
+  shoff : hdr.getNat "e_shoff" = .ok (if d.sections.length = 0 then 0 else d.shoff)
+  shnum : hdr.getNat "e_shnum" = .ok (if d.xShnum || d.sections.length ≥ 0xff00 then 0 else d.sections.length)
+  shstrndx : hdr.getNat "e_shstrndx" = .ok (if d.xShstrndx || d.shstrndx ≥ 0xff00 then 0xffff else d.shstrndx)
+  phentsize : hdr.getNat "e_phentsize" = .ok d.phentsize
+  phoff : hdr.getNat "e_phoff" = .ok (if d.segments.length = 0 then 0 else d.phoff)
+  phnum : hdr.getNat "e_phnum" = .ok (if d.xPhnum || d.segments.length ≥ 0xffff then 0xffff else d.segments.length)
+  ety : ∃ t, hdr.getField "e_type" = .ok t
+  emach : ∃ t, hdr.getField "e_machine" = .ok t
+  osabi : ∃ idt t, hdr.getField "e_ident" = .ok idt ∧ idt.getField "EI_OSABI" = .ok t
+
+theorem hdr_nat_aux {env : Env} {d : ElfDesc} {eh : Bytes} {hdr : Val}
+    (he : (Con.struct (ehdrFields d.cfg)).encodeRaw (.record (ehdrRawFields d)) = some eh)
+    (hd : (Con.struct (ehdrFields d.cfg)).decodeRaw env [] (.record (ehdrRawFields d)) = .ok hdr)
+    (k : String) (n : Nat) (hf : fieldCon (ehdrFields d.cfg) k = some (.uint n d.cfg.le)) (x : Nat)
+    (hx : Fields.get? (ehdrRawFields d) k = some (.int x)) : hdr.getNat k = .ok x := by
+  obtain ⟨z, -, h1, h2⟩ := uint_field hf he hd
+  rw [hx] at h1
+  have : (x : Int) = z := by simpa using h1
+  have : x = z := by omega
+  subst this
+  exact getNat_of_getField h2
+
+theorem hdr_facts {env : Env} {d : ElfDesc} {eh : Bytes} {hdr : Val}
+    (he : d.S.Elf_Ehdr.encodeRaw d.ehdrRaw = some eh)
+    (hd : d.S.Elf_Ehdr.decodeRaw env [] d.ehdrRaw = .ok hdr) : HdrFacts d hdr := by
+  have hS : d.S.Elf_Ehdr = .struct (ehdrFields d.cfg) := rfl
+  rw [hS, ehdrRaw_eq] at he hd
+  have half := fun k hk x hx => hdr_nat_aux he hd k 2 (ehdr_field_half d.cfg k hk) x hx
+  have addr := fun k hk x hx => hdr_nat_aux he hd k _ (ehdr_field_addr d.cfg k hk) x hx
+  refine ⟨?_, ?_, ?_, ?_, ?_, ?_, ?_, ?_, ?_, ?_⟩
+  · exact half "e_shentsize" (by simp [ehdrHalfKeys]) _ (by simp [ehdrRawFields, Fields.get?])
+  · exact addr "e_shoff" (by simp) _ (by simp only [ehdrRawFields, Fields.get?]; simp; split <;> simp)
+  · exact half "e_shnum" (by simp [ehdrHalfKeys]) _ (by simp only [ehdrRawFields, Fields.get?]; simp; split <;> simp)
+  · exact half "e_shstrndx" (by simp [ehdrHalfKeys]) _ (by simp only [ehdrRawFields, Fields.get?]; simp; split <;> simp)
+  · exact half "e_phentsize" (by simp [ehdrHalfKeys]) _ (by simp [ehdrRawFields, Fields.get?])
+  · exact addr "e_phoff" (by simp) _ (by simp only [ehdrRawFields, Fields.get?]; simp; split <;> simp)
+  · exact half "e_phnum" (by simp [ehdrHalfKeys]) _ (by simp only [ehdrRawFields, Fields.get?]; simp; split <;> simp)
+  · obtain ⟨_, x, _, hx⟩ := struct_field_exists (ehdr_field_type d.cfg) hd
+    exact ⟨x, hx⟩
+  · obtain ⟨_, x, _, hx⟩ := struct_field_exists (ehdr_field_machine d.cfg) hd
+    exact ⟨x, hx⟩
+  · obtain ⟨_, idt, h1, hx⟩ := struct_field_exists (ehdr_field_ident d.cfg) hd
+    have : Fields.get? (ehdrRawFields d) "e_ident" = some (.record (identRawFields d)) := by
+      simp [ehdrRawFields, Fields.get?]
+    rw [this] at h1
+    simp only [Option.getD_some] at h1
+    obtain ⟨_, t, _, ht⟩ := struct_field_exists (ident_field_osabi d.cfg.le) h1
+    exact ⟨idt, t, hx, ht⟩
+
+theorem encNat_one (le : Bool) (v : Nat) : encNat le 1 v = [UInt8.ofNat (v % 256)] := by
+  cases le <;> simp [encNat, natLE, natBE]
+
+theorem encodeRaw_byte_lit (le : Bool) (v : Nat) (hv : v < 256) :
+    (Con.uint 1 le).encodeRaw (.int (v : Int)) = some [UInt8.ofNat v] := by
+  have h1 : (0 : Int) ≤ (v : Int) := by omega
+  have h2 : (v : Int) < 256 ^ 1 := by omega
+  simp only [Con.encodeRaw, h1, h2, and_self, if_true, encNat_one]
+  simp [Nat.mod_eq_of_lt hv]
+
+theorem ident_prefix {d : ElfDesc} {a : Bytes}
+    (ha : ConFields.encodeRaw (identFields d.le) (identRawFields d) = some a) :
+    ∃ t, a = 0x7f :: 0x45 :: 0x4c :: 0x46 :: (if d.cls = 32 then 1 else 2) :: (if d.le then 1 else 2) :: t := by
+  simp only [identFields, mkFields, f, anon] at ha
+  rw [ConFields.encodeRaw] at ha
+  obtain ⟨a1, b1, ha1, hb1, rfl⟩ := bind2_eq_some ha
+  rw [ConFields.encodeRaw] at hb1
+  obtain ⟨a2, b2, ha2, hb2, rfl⟩ := bind2_eq_some hb1
+  rw [ConFields.encodeRaw] at hb2
+  obtain ⟨a3, b3, ha3, hb3, rfl⟩ := bind2_eq_some hb2
+  have e1 : a1 = [0x7f, 0x45, 0x4c, 0x46] := by
+    have := encodeRaw_byte_lit d.le 0x7f (by omega)
+    have := encodeRaw_byte_lit d.le 0x45 (by omega)
+    have := encodeRaw_byte_lit d.le 0x4c (by omega)
+    have := encodeRaw_byte_lit d.le 0x46 (by omega)
+    simp_all [identRawFields, Fields.get?, Con.encodeRaw, lit, Expr.litNat?, Con.encodeRawList]
+  have e2 : a2 = [if d.cls = 32 then 1 else 2] := by
+    have h1 := encodeRaw_byte_lit d.le 1 (by omega)
+    have h2 := encodeRaw_byte_lit d.le 2 (by omega)
+    simp only [identRawFields, Fields.get?, enumOf] at ha2
+    simp at ha2
+    rw [Con.encodeRaw] at ha2
+    split at ha2 <;> split <;> simp_all
+  have e3 : a3 = [if d.le then 1 else 2] := by
+    have h1 := encodeRaw_byte_lit d.le 1 (by omega)
+    have h2 := encodeRaw_byte_lit d.le 2 (by omega)
+    simp only [identRawFields, Fields.get?, enumOf] at ha3
+    simp at ha3
+    rw [Con.encodeRaw] at ha3
+    split at ha3 <;> split <;> simp_all
+  subst e1 e2 e3
+  exact ⟨b3, by simp⟩
+
+theorem ehdr_prefix {d : ElfDesc} {eh : Bytes} (he : d.S.Elf_Ehdr.encodeRaw d.ehdrRaw = some eh) :
+    ∃ t, eh = 0x7f :: 0x45 :: 0x4c :: 0x46 :: (if d.cls = 32 then 1 else 2) :: (if d.le then 1 else 2) :: t := by
+  have hS : d.S.Elf_Ehdr = .struct (ehdrFields d.cfg) := rfl
+  rw [hS, ehdrRaw_eq, Con.encodeRaw] at he
+  simp only [ehdrFields, mkFields, f] at he
+  rw [ConFields.encodeRaw] at he
+  obtain ⟨a, b, ha, -, rfl⟩ := bind2_eq_some he
+  have : Fields.get? (ehdrRawFields d) "e_ident" = some (.record (identRawFields d)) := by
+    simp [ehdrRawFields, Fields.get?]
+  rw [this] at ha
+  simp only [Option.getD_some, Con.encodeRaw] at ha
+  obtain ⟨t, rfl⟩ := ident_prefix ha
+  exact ⟨t ++ b, by simp⟩
+
+theorem identify_ok {d : ElfDesc} {bytes eh : Bytes} (hcls : d.cls = 32 ∨ d.cls = 64)
+    (he : d.S.Elf_Ehdr.encodeRaw d.ehdrRaw = some eh) (hr : readN bytes 0 eh.length = eh) :
+    identify bytes = .ok (d.cls, d.le) := by
+  obtain ⟨t, rfl⟩ := ehdr_prefix he
+  have hb := drop_of_readN hr
+  simp only [List.drop_zero] at hb
+  rw [hb]
+  rcases hcls with h | h <;> cases hle : d.le <;>
+    simp [identify, readN, h, bind, Except.bind, pure, Except.pure]
+
+/-! ### well-formedness, unpacked -/
+
+structure WfFacts (env : Env) (d : ElfDesc) : Prop where
+  cls : d.cls = 32 ∨ d.cls = 64
+  cfg : d.cfgOk env = true
+  disj : ∃ rs, d.regions = some rs ∧ regionsDisjoint (sortRegions rs) = true
+  esc : d.escapesOk = true
+  names : d.namesOk = true
+  shent : d.sections.length = 0 ∨ d.S.Elf_Shdr.sizeof.getD 0 ≤ d.shentsize
+  phent : d.segments.length = 0 ∨ d.S.Elf_Phdr.sizeof.getD 0 ≤ d.phentsize
+  shbound : d.shoff + d.sections.length * d.shentsize < 2 ^ 63
+  phbound : d.phoff + d.segments.length * d.phentsize < 2 ^ 63
+  nlt : d.sections.length < 2 ^ 32
+  mlt : d.segments.length < 2 ^ 32
+  shpos : d.sections.length = 0 ∨ (0 < d.shoff ∧ d.shstrndx < d.sections.length)
+  phpos : d.segments.length = 0 ∨ 0 < d.phoff
+  nameoff : ∀ st, d.sections[d.shstrndx]? = some st →
+    ∀ s ∈ d.sections, getNatD st.hdr "sh_offset" + s.nameOff < 2 ^ 63
+  secs : ∀ i, i < d.sections.length → d.secOk env 4 i = true
+  noshstr : d.sections.length = 0 → d.shstrndx = 0
+
+theorem wf_facts {env : Env} {d : ElfDesc} (h : d.wf env = true) : WfFacts env d := by
+  unfold ElfDesc.wf at h
+  simp only [Bool.and_eq_true, Bool.or_eq_true, beq_iff_eq, decide_eq_true_eq, List.all_eq_true,
+    List.mem_range, bne_iff_ne, ne_eq] at h
+  obtain ⟨⟨⟨⟨⟨⟨⟨⟨⟨⟨⟨⟨⟨⟨⟨⟨h1, h2⟩, h3⟩, h4⟩, h5⟩, h6⟩, h7⟩, h8⟩, h9⟩, h10⟩, h11⟩, h12⟩, h13⟩, h14⟩, h15⟩, h16⟩, h17⟩ := h
+  refine ⟨h1, h3, ?_, h5, h6, h7, h8, h9, h10, h11, h12, h13, h14, ?_, h16, ?_⟩
+  · cases hr : d.regions with
+    | none => simp [hr] at h4
+    | some rs => exact ⟨rs, rfl, by simpa [hr] using h4⟩
+  · intro st hst s hs
+    rw [hst] at h15
+    simp only [List.all_eq_true, decide_eq_true_eq] at h15
+    exact h15 s hs
+  · intro hn
+    rcases h17 with h | h
+    · exact absurd hn h
+    · exact h
+
+/-! ### reading section headers -/
+
+theorem shdr_sizeof (c : ElfCfg) : (elfStructs c).Elf_Shdr.sizeof = some (16 + 6 * (c.cls / 8)) := by
+  simp [elfStructs, st, mkFields, f, Con.sizeof, ConFields.sizeof, enumOf]
+  omega
+
+theorem shdr_fixed (c : ElfCfg) : (elfStructs c).Elf_Shdr.fixed = true := rfl
+theorem ehdr_fixed (c : ElfCfg) : (elfStructs c).Elf_Ehdr.fixed = true := rfl
+
+theorem dS_shdr_sizeof (d : ElfDesc) : d.S.Elf_Shdr.sizeof = some (16 + 6 * (d.cls / 8)) := shdr_sizeof d.cfg
+theorem dS_shdr_fixed (d : ElfDesc) : d.S.Elf_Shdr.fixed = true := rfl
+theorem dS_ehdr_fixed (d : ElfDesc) : d.S.Elf_Ehdr.fixed = true := rfl
+
+theorem decHdr_some {env : Env} {d : ElfDesc} {i : Nat} {h : Val} (hd : d.decHdr env i = some h) :
+    ∃ hi : i < d.sections.length, d.S.Elf_Shdr.decodeRaw env [] (d.sections[i]).raw = .ok h := by
+  unfold ElfDesc.decHdr at hd
+  cases hs : d.sections[i]? with
+  | none => simp [hs] at hd
+  | some s =>
+    obtain ⟨hi, rfl⟩ := List.getElem?_eq_some_iff.1 hs
+    refine ⟨hi, ?_⟩
+    simp only [hs] at hd
+    cases hr : d.S.Elf_Shdr.decodeRaw env [] (d.sections[i]).raw with
+    | error e => simp [hr, Except.toOption] at hd
+    | ok v => simp [hr, Except.toOption] at hd; rw [hd]
+
+theorem decHdr_of_ok {env : Env} {d : ElfDesc} {i : Nat} {h : Val} (hi : i < d.sections.length)
+    (hd : d.S.Elf_Shdr.decodeRaw env [] (d.sections[i]).raw = .ok h) : d.decHdr env i = some h := by
+  unfold ElfDesc.decHdr
+  simp [List.getElem?_eq_getElem hi, hd, Except.toOption]
+
+theorem sectionOffset_ok {env : Env} {d : ElfDesc} {hdr : Val} (hw : WfFacts env d) (hf : HdrFacts d hdr)
+    (i : Nat) :
+    sectionOffset d.S hdr i = .ok ((if d.sections.length = 0 then 0 else d.shoff) + i * d.shentsize) := by
+  unfold sectionOffset
+  have hsz : sizeofR d.S.Elf_Shdr = .ok (16 + 6 * (d.cls / 8)) := by
+    unfold sizeofR; rw [dS_shdr_sizeof]
+  simp only [hf.shentsize, hf.shoff, hsz, bind, Except.bind]
+  by_cases hn : d.sections.length = 0
+  · simp [hn, pure, Except.pure]
+  · have := hw.shent
+    rw [dS_shdr_sizeof] at this
+    simp only [Option.getD_some] at this
+    have hlt : ¬ d.shentsize < 16 + 6 * (d.cls / 8) := by
+      rcases this with h | h
+      · exact absurd h hn
+      · omega
+    simp [hn, hlt, pure, Except.pure]
+
+theorem getSectionHeader_ok {env : Env} {d : ElfDesc} {bytes : Bytes} {hdr : Val} (hw : WfFacts env d)
+    (hL : LayoutFacts d bytes) (hf : HdrFacts d hdr) {i : Nat} {h : Val} (hd : d.decHdr env i = some h) :
+    getSectionHeader env d.S bytes hdr i = .ok (some h) := by
+  obtain ⟨hi, hdec⟩ := decHdr_some hd
+  obtain ⟨b, hb, hr⟩ := hL.shdr i hi
+  have hn : d.sections.length ≠ 0 := by omega
+  have hlen : b.length = 16 + 6 * (d.cls / 8) := by
+    have := encodeRaw_length _ (dS_shdr_fixed d) _ _ hb
+    rw [dS_shdr_sizeof] at this
+    simp only [Option.some.injEq] at this
+    exact this.symm
+  have hle : d.shoff + i * d.shentsize + b.length ≤ bytes.length := by
+    rcases readN_le_length hr with h0 | h0
+    · rw [h0] at hlen; simp at hlen; omega
+    · exact h0
+  have hpos : d.shoff + i * d.shentsize < 2 ^ 63 := by
+    have := hw.shbound
+    have : i * d.shentsize ≤ d.sections.length * d.shentsize := Nat.mul_le_mul_right _ (by omega)
+    omega
+  unfold getSectionHeader
+  rw [sectionOffset_ok hw hf]
+  simp only [hn, if_false, bind, Except.bind]
+  have hgt : ¬ d.shoff + i * d.shentsize > bytes.length := by omega
+  simp only [hgt, if_false]
+  rw [structParseAt_layout env _ (dS_shdr_fixed d) _ b hb bytes _ hr hpos, hdec]
+  rfl
+
+/-! ### `secOk`, unpacked -/
+
+/-- the type-specific half of `secOk` -/
+def secCond (env : Env) (d : ElfDesc) (fuel : Nat) (s : SecDesc) (h : Val) : Bool :=
+  let w := d.cls / 8
+  let link := fieldNat h "sh_link"
+  let linkIs (types : List String) : Bool :=
+    match d.decHdr env link with
+    | some lh => typeIn lh types && d.secOk env fuel link
+    | none => false
+  let entsize := fieldNat h "sh_entsize"
+  let size := fieldNat h "sh_size"
+  let off := fieldNat h "sh_offset"
+  let body := bodyOf s
+  let word (k : Nat) : Nat := decNat d.le ((body.drop (4 * k)).take 4)
+  (if typeIn h ["SHT_SYMTAB", "SHT_DYNSYM", "SHT_SUNW_LDYNSYM"] then
+     linkIs ["SHT_STRTAB"] && decide (0 < entsize) && size % entsize == 0
+   else if typeIn h ["SHT_SUNW_syminfo", "SHT_GNU_versym"] then linkIs ["SHT_SYMTAB", "SHT_DYNSYM"]
+   else if typeIn h ["SHT_GNU_verneed", "SHT_GNU_verdef"] then linkIs ["SHT_STRTAB"]
+   else if typeIn h ["SHT_REL"] then entsize == 2 * w
+   else if typeIn h ["SHT_RELA"] then entsize == 3 * w
+   else if typeIn h ["SHT_RELR"] then entsize == w
+   else if typeIn h ["SHT_DYNAMIC"] then linkIs ["SHT_STRTAB", "SHT_NOBITS"]
+   else if typeIn h ["SHT_ARM_ATTRIBUTES", "SHT_RISCV_ATTRIBUTES"] then
+     decide (off < 2 ^ 63) && body.head? == some 0x41
+   else if typeIn h ["SHT_HASH"] then
+     linkIs ["SHT_SYMTAB", "SHT_DYNSYM"] && decide (off < 2 ^ 63) &&
+     decide (8 ≤ body.length) && decide (8 + 4 * (word 0 + word 1) ≤ body.length)
+   else if typeIn h ["SHT_GNU_HASH"] then
+     linkIs ["SHT_SYMTAB", "SHT_DYNSYM"] && decide (off < 2 ^ 63) &&
+     decide (16 ≤ body.length) && decide (16 + w * word 2 + 4 * word 0 ≤ body.length)
+   else true)
+
+theorem secOk_unpack {env : Env} {d : ElfDesc} {fuel i : Nat} (h : d.secOk env fuel i = true) :
+    ∃ fuel' s hd, fuel = fuel' + 1 ∧ d.sections[i]? = some s ∧ d.decHdr env i = some hd ∧
+      fieldNat hd "sh_flags" &&& 0x800 = 0 ∧ secCond env d fuel' s hd = true := by
+  cases fuel with
+  | zero => simp [ElfDesc.secOk] at h
+  | succ fuel' =>
+    rw [ElfDesc.secOk] at h
+    cases hs : d.sections[i]? with
+    | none => simp [hs] at h
+    | some s =>
+      cases hh : d.decHdr env i with
+      | none => simp [hs, hh] at h
+      | some hd =>
+        simp only [hs, hh, Bool.and_eq_true, beq_iff_eq] at h
+        exact ⟨fuel', s, hd, rfl, rfl, rfl, h.1, h.2⟩
+
+/-- everything known about section `i` of a well-formed, laid-out description -/
+theorem sec_bundle {env : Env} {d : ElfDesc} {bytes : Bytes} (hL : LayoutFacts d bytes)
+    {fuel i : Nat} (hok : d.secOk env fuel i = true) :
+    ∃ (hi : i < d.sections.length) (hd : Val) (fuel' : Nat), fuel = fuel' + 1 ∧ d.decHdr env i = some hd ∧
+      SecFacts (d.sections[i]) hd ∧ fieldNat hd "sh_flags" &&& 0x800 = 0 ∧
+      secCond env d fuel' (d.sections[i]) hd = true := by
+  obtain ⟨fuel', s, hd, rfl, hs, hdec, hfl, hc⟩ := secOk_unpack hok
+  obtain ⟨hi, rfl⟩ := List.getElem?_eq_some_iff.1 hs
+  obtain ⟨_, hdd⟩ := decHdr_some hdec
+  obtain ⟨b, hb, -⟩ := hL.shdr i hi
+  exact ⟨hi, hd, fuel', rfl, hdec, sec_facts hb hdd, hfl, hc⟩
+
+theorem sectionInit_ok {env : Env} {S : ElfStructs} {data : Bytes} {s : SecDesc} {h : Val}
+    (hf : SecFacts s h) (hfl : fieldNat h "sh_flags" &&& 0x800 = 0) :
+    sectionInit env S data h = .ok () := by
+  unfold sectionInit
+  rw [hf.nat "sh_flags" (by simp [shdrNatKeys])]
+  simp [bind, Except.bind, hfl, pure, Except.pure]
+
+/-! ### the extended-numbering escapes -/
+
+structure EscFacts (d : ElfDesc) : Prop where
+  shnum : (d.xShnum || decide (d.sections.length ≥ 0xff00)) = true →
+    ∃ s0, d.sections[0]? = some s0 ∧ getNatD s0.hdr "sh_size" = d.sections.length
+  shstrndx : (d.xShstrndx || decide (d.shstrndx ≥ 0xff00)) = true →
+    ∃ s0, d.sections[0]? = some s0 ∧ getNatD s0.hdr "sh_link" = d.shstrndx
+  phnum : (d.xPhnum || decide (d.segments.length ≥ 0xffff)) = true →
+    ∃ s0, d.sections[0]? = some s0 ∧ getNatD s0.hdr "sh_info" = d.segments.length
+
+theorem esc_aux {a : Bool} {n x y : Nat} (h : (!a || (decide (n > 0) && x == y)) = true) (ha : a = true) :
+    n > 0 ∧ x = y := by
+  subst ha
+  simpa using h
+
+theorem esc_head {secs : List SecDesc} {k : String} {v : Nat}
+    (h : secs.length > 0 ∧ getNatD (match secs with | s :: _ => s.hdr | [] => []) k = v) :
+    ∃ s0, secs[0]? = some s0 ∧ getNatD s0.hdr k = v := by
+  cases secs with
+  | nil => simp at h
+  | cons s rest => exact ⟨s, by simp, h.2⟩
+
+theorem esc_facts {d : ElfDesc} (h : d.escapesOk = true) : EscFacts d := by
+  unfold ElfDesc.escapesOk at h
+  simp only [Bool.and_eq_true] at h
+  obtain ⟨⟨⟨h1, h2⟩, h3⟩, -⟩ := h
+  exact ⟨fun hx => esc_head (esc_aux h1 hx), fun hx => esc_head (esc_aux h2 hx),
+    fun hx => esc_head (esc_aux h3 hx)⟩
+
+theorem getShstrndx_ok {env : Env} {d : ElfDesc} {bytes : Bytes} {hdr : Val} (hw : WfFacts env d)
+    (hL : LayoutFacts d bytes) (hf : HdrFacts d hdr) :
+    getShstrndx env d.S bytes hdr = .ok d.shstrndx := by
+  unfold getShstrndx
+  rw [hf.shstrndx]
+  simp only [bind, Except.bind]
+  by_cases hx : (d.xShstrndx || decide (d.shstrndx ≥ 0xff00)) = true
+  · obtain ⟨s0, hs0, hlink⟩ := (esc_facts hw.esc).shstrndx hx
+    obtain ⟨h0, rfl⟩ := List.getElem?_eq_some_iff.1 hs0
+    obtain ⟨_, h, _, _, hdec, hsf, _, _⟩ := sec_bundle hL (hw.secs 0 h0)
+    simp only [hx, if_true]
+    rw [getSectionHeader_ok hw hL hf hdec]
+    simp only [bne_self_eq_false, Bool.false_eq_true, if_false]
+    rw [hsf.nat "sh_link" (by simp [shdrNatKeys]), hsf.raw "sh_link" (by simp [shdrNatKeys]) (by decide), hlink]
+  · simp only [hx, Bool.false_eq_true, if_false]
+    have : d.shstrndx < 0xff00 := by
+      simp only [Bool.or_eq_true, decide_eq_true_eq, not_or] at hx
+      omega
+    have hne : (d.shstrndx != 0xffff) = true := by
+      simp only [bne_iff_ne, ne_eq]; omega
+    simp [hne, pure, Except.pure]
+
+def specMC : Val → String
+  | .str m => ((machineClass.find? (·.1 == m)).map (·.2)).getD "default"
+  | _ => "default"
+
+def specSF : ElfCfg → Option ElfStructs := fun c => some (elfStructs c)
+
+theorem cfgOfHeader_ok {env : Env} {d : ElfDesc} {hdr : Val}
+    (hd : d.S.Elf_Ehdr.decodeRaw env [] d.ehdrRaw = .ok hdr) (hcfg : d.cfgOk env = true)
+    (hf : HdrFacts d hdr) : cfgOfHeader specMC d.cls d.le hdr = .ok d.cfg := by
+  obtain ⟨et, het⟩ := hf.ety
+  obtain ⟨em, hem⟩ := hf.emach
+  obtain ⟨idt, osabi, hid, hos⟩ := hf.osabi
+  unfold ElfDesc.cfgOk at hcfg
+  simp only [hd, het, hem, hid, hos, Except.toOption, Option.getD_some, Bool.and_eq_true, beq_iff_eq] at hcfg
+  obtain ⟨⟨h1, h2⟩, h3⟩ := hcfg
+  unfold cfgOfHeader
+  simp only [het, hem, hid, hos, bind, Except.bind, pure, Except.pure]
+  have e2 : isStr osabi "ELFOSABI_SOLARIS" = d.solaris := by
+    rw [h2]; cases osabi <;> simp [isStr]
+    split <;> simp_all
+  have e3 : isStr et "ET_CORE" = d.core := by
+    rw [h3]; cases et <;> simp [isStr]
+    split <;> simp_all
+  have e1 : specMC em = d.mclass := by
+    rw [← h1]; cases em <;> rfl
+  rw [e1, e2, e3]; rfl
+
+/-! ### `ELFFile(stream)` -/
+
+theorem parse_ehdr_ok {env : Env} {d : ElfDesc} {bytes : Bytes} {hdr : Val} (hL : LayoutFacts d bytes)
+    (hd : d.S.Elf_Ehdr.decodeRaw env [] d.ehdrRaw = .ok hdr) :
+    ∃ p, structParseAt env (elfStructs ⟨d.le, d.cls, "default", false, false⟩).Elf_Ehdr bytes 0 = .ok (hdr, p) := by
+  obtain ⟨eh, he, hr⟩ := hL.ehdr
+  have : (elfStructs ⟨d.le, d.cls, "default", false, false⟩).Elf_Ehdr = d.S.Elf_Ehdr := rfl
+  rw [this, structParseAt_layout env _ (dS_ehdr_fixed d) _ eh he bytes 0 hr (by omega), hd]
+  exact ⟨_, rfl⟩
+
+theorem openElf_ok_pos {env : Env} {d : ElfDesc} {bytes : Bytes} {hdr : Val} (hw : WfFacts env d)
+    (hL : LayoutFacts d bytes) (hd : d.S.Elf_Ehdr.decodeRaw env [] d.ehdrRaw = .ok hdr)
+    (hn : 0 < d.sections.length) :
+    ∃ st, d.decHdr env d.shstrndx = some st ∧
+      openElf env specSF specMC bytes
+        = .ok { data := bytes, cls := d.cls, le := d.le, S := d.S, header := hdr, shstr := some st } := by
+  obtain ⟨eh, he, hr⟩ := hL.ehdr
+  have hf := hdr_facts he hd
+  have hlt : d.shstrndx < d.sections.length := by
+    rcases hw.shpos with h | h
+    · omega
+    · exact h.2
+  obtain ⟨_, st, _, _, hdec, hsf, hfl, _⟩ := sec_bundle hL (hw.secs _ hlt)
+  obtain ⟨p, hp⟩ := parse_ehdr_ok hL hd
+  refine ⟨st, hdec, ?_⟩
+  unfold openElf
+  rw [identify_ok hw.cls he hr]
+  simp only [bind, Except.bind, specSF, hp, cfgOfHeader_ok hd hw.cfg hf]
+  have : elfStructs d.cfg = d.S := rfl
+  rw [this, getShstrndx_ok hw hL hf]
+  simp only [getSectionHeader_ok hw hL hf hdec, sectionInit_ok hsf hfl]
+  rfl
+
+/-! ### section names -/
+
+theorem firstNul_append_of_some {a : Bytes} {x : Bytes} (r : Bytes) (h : firstNul a = some x) :
+    firstNul (a ++ r) = some x := by
+  induction a generalizing x with
+  | nil => simp [firstNul] at h
+  | cons b a ih =>
+    simp only [List.cons_append, firstNul] at h ⊢
+    split
+    · rename_i hb; simpa [hb] using h
+    · rename_i hb
+      simp only [hb, if_false] at h
+      cases hf : firstNul a with
+      | none => simp [hf] at h
+      | some y => rw [ih hf]; simpa [hf] using h
+
+theorem parseCStringFromStream_eq (data : Bytes) (pos : Nat) :
+    parseCStringFromStream data pos = .ok (firstNul (data.drop pos)) := by
+  unfold parseCStringFromStream
+  rw [cstringChunkLoop_eq data 64 (by omega) _ _ _ (by omega)]
+  simp
+
+structure NameFacts (d : ElfDesc) : Prop where
+  ok : ∃ (hlt : d.shstrndx < d.sections.length) (body : Bytes), (d.sections[d.shstrndx]).body = some body ∧
+      ∀ s ∈ d.sections, firstNul (body.drop s.nameOff) = some s.name
+
+theorem name_facts {d : ElfDesc} (h : d.namesOk = true) (hn : 0 < d.sections.length) : NameFacts d := by
+  unfold ElfDesc.namesOk at h
+  cases hs : d.sections[d.shstrndx]? with
+  | none =>
+    simp only [hs] at h
+    have : d.sections = [] := by simpa using h
+    rw [this] at hn; simp at hn
+  | some st =>
+    obtain ⟨hlt, rfl⟩ := List.getElem?_eq_some_iff.1 hs
+    simp only [hs] at h
+    cases hb : (d.sections[d.shstrndx]).body with
+    | none => simp [hb] at h
+    | some body =>
+      simp only [hb, List.all_eq_true, beq_iff_eq] at h
+      exact ⟨hlt, body, hb, h⟩
+
+theorem getSectionName_ok {env : Env} {d : ElfDesc} {bytes : Bytes} {st : Val} (hw : WfFacts env d)
+    (hL : LayoutFacts d bytes) (hst : d.decHdr env d.shstrndx = some st)
+    {i : Nat} (hi : i < d.sections.length) {h : Val} (hsf : SecFacts (d.sections[i]) h) :
+    getSectionName bytes (some st) (some h) = .ok (d.sections[i]).name := by
+  obtain ⟨hlt, body, hbody, hall⟩ := (name_facts hw.names (by omega)).ok
+  obtain ⟨_, hstd⟩ := decHdr_some hst
+  obtain ⟨b, hb, -⟩ := hL.shdr _ hlt
+  have hstf := sec_facts hb hstd
+  have hread := hL.body _ (List.getElem_mem hlt) body hbody
+  have hname := hall _ (List.getElem_mem hi)
+  have hoff := hw.nameoff _ (List.getElem?_eq_getElem hlt) _ (List.getElem_mem hi)
+  unfold getSectionName subscript
+  have h1 : (do let x ← h.getField "sh_name"; x.asNat) = h.getNat "sh_name" := rfl
+  simp only [bind, Except.bind] at h1 ⊢
+  have hnm := hsf.nat "sh_name" (by simp [shdrNatKeys])
+  rw [hsf.name] at hnm
+  simp only [Val.getNat, bind, Except.bind] at hnm
+  cases hg : h.getField "sh_name" with
+  | error e => simp [hg] at hnm
+  | ok x =>
+    simp only [hg] at hnm ⊢
+    rw [hnm]
+    simp only
+    unfold getString
+    rw [hstf.nat "sh_offset" (by simp [shdrNatKeys]),
+      hstf.raw "sh_offset" (by simp [shdrNatKeys]) (by decide)]
+    simp only [bind, Except.bind]
+    unfold parseCStringAt seekCheck
+    have : ¬ (getNatD (d.sections[d.shstrndx]).hdr "sh_offset" + (d.sections[i]).nameOff ≥ 2 ^ 63) := by omega
+    simp only [this, if_false, bind, Except.bind]
+    rw [parseCStringFromStream_eq]
+    have hd := drop_of_readN hread
+    rw [← List.drop_drop, hd, List.drop_append, firstNul_append_of_some _ hname]
+    rfl
+
+/-! ### sizes the constructors consult -/
+
+theorem rel_sizeof (c : ElfCfg) (hc : c.cls = 32 ∨ c.cls = 64) :
+    (elfStructs c).Elf_Rel.sizeof = some (2 * (c.cls / 8)) ∧
+    (elfStructs c).Elf_Rela.sizeof = some (3 * (c.cls / 8)) := by
+  obtain ⟨le, cls, m, sol, core⟩ := c
+  simp only at hc
+  rcases hc with rfl | rfl
+  · simp [elfStructs, st, mkFields, f, Con.sizeof, ConFields.sizeof]
+  · by_cases hm : m = "EM_MIPS"
+    · subst hm
+      simp [elfStructs, st, mkFields, f, Con.sizeof, ConFields.sizeof]
+    · simp [elfStructs, st, mkFields, f, Con.sizeof, ConFields.sizeof, hm]
+
+theorem relr_sizeof (c : ElfCfg) : (elfStructs c).Elf_Relr.sizeof = some (c.cls / 8) := by
+  simp [elfStructs, st, mkFields, f, Con.sizeof, ConFields.sizeof]
+
+theorem dyn_sizeof (c : ElfCfg) : ∃ n, (elfStructs c).Elf_Dyn.sizeof = some n := by
+  exact ⟨_, by simp [elfStructs, st, mkFields, f, Con.sizeof, ConFields.sizeof, enumOf]; rfl⟩
+
+theorem word_sizeof (c : ElfCfg) : (elfStructs c).Elf_word.sizeof = some 4 := rfl
+theorem xword_sizeof (c : ElfCfg) : (elfStructs c).Elf_xword.sizeof = some (c.cls / 8) := rfl
+
+theorem sym_sizeof (c : ElfCfg) : ∃ n, (elfStructs c).Elf_Sym.sizeof = some n := by
+  obtain ⟨le, cls, m, sol, core⟩ := c
+  by_cases h : cls = 32
+  · subst h; exact ⟨_, by simp [elfStructs, st, mkFields, f, Con.sizeof, ConFields.sizeof, enumOf]; rfl⟩
+  · exact ⟨_, by simp [elfStructs, st, mkFields, f, Con.sizeof, ConFields.sizeof, enumOf, h]; rfl⟩
+
+theorem phdr_fixed (c : ElfCfg) : (elfStructs c).Elf_Phdr.fixed = true := by
+  obtain ⟨le, cls, m, sol, core⟩ := c
+  by_cases h : cls = 32
+  · subst h; rfl
+  · simp only [elfStructs, h]; rfl
+
+/-! ### `_make_section`, split into named pieces -/
+
+section pieces
+variable (env : Env) (S : ElfStructs) (data : Bytes) (hdr : Val) (shstr : Option Val) (fuel : Nat)
+
+def linkedStrtabR (link : Nat) : R Unit := do
+  let h ← getSectionHeader env S data hdr link
+  let t ← subscript h "sh_type"
+  if !isStr t "SHT_STRTAB" then throw .elfError
+  let _ ← makeSection env S data hdr shstr fuel h
+  return ()
+
+def linkedSymtabR (link : Nat) : R Unit := do
+  let h ← getSectionHeader env S data hdr link
+  let t ← subscript h "sh_type"
+  if !(isStr t "SHT_SYMTAB" || isStr t "SHT_DYNSYM") then throw .elfError
+  let _ ← makeSection env S data hdr shstr fuel h
+  return ()
+
+def kindR (sh ty : Val) (link : Nat) (name : Bytes) : R String :=
+  let linkedStrtab := linkedStrtabR env S data hdr shstr fuel link
+  let linkedSymtab := linkedSymtabR env S data hdr shstr fuel link
+  let init := sectionInit env S data sh
+  if isStr ty "SHT_STRTAB" then do init; return "StringTableSection"
+  else if isStr ty "SHT_NULL" then do init; return "NullSection"
+  else if isStr ty "SHT_SYMTAB" || isStr ty "SHT_DYNSYM" || isStr ty "SHT_SUNW_LDYNSYM" then do
+    linkedStrtab; init
+    let es ← sh.getNat "sh_entsize"
+    if !(es > 0) then throw .elfError
+    if (← sh.getNat "sh_size") % es != 0 then throw .elfError
+    return "SymbolTableSection"
+  else if isStr ty "SHT_SYMTAB_SHNDX" then do init; return "SymbolTableIndexSection"
+  else if isStr ty "SHT_SUNW_syminfo" then do linkedSymtab; init; return "SUNWSyminfoTableSection"
+  else if isStr ty "SHT_GNU_verneed" then do linkedStrtab; init; return "GNUVerNeedSection"
+  else if isStr ty "SHT_GNU_verdef" then do linkedStrtab; init; return "GNUVerDefSection"
+  else if isStr ty "SHT_GNU_versym" then do linkedSymtab; init; return "GNUVerSymSection"
+  else if isStr ty "SHT_REL" || isStr ty "SHT_RELA" then do
+    init
+    let esz ← sizeofR (if isStr ty "SHT_RELA" then S.Elf_Rela else S.Elf_Rel)
+    if (← sh.getNat "sh_entsize") != esz then throw .elfError
+    return "RelocationSection"
+  else if isStr ty "SHT_DYNAMIC" then do
+    init
+    let h ← getSectionHeader env S data hdr link
+    match h with
+    | none => throw .attributeError
+    | some hh =>
+      let t ← hh.getField "sh_type"
+      if !(isStr t "SHT_STRTAB" || isStr t "SHT_NOBITS") then throw .elfError
+      let _ ← makeSection env S data hdr shstr fuel h
+      let _ ← sizeofR S.Elf_Dyn
+      return "DynamicSection"
+  else if isStr ty "SHT_NOTE" then do init; return "NoteSection"
+  else if isStr ty "SHT_PROGBITS" && name == ".stab".toUTF8.toList then do init; return "StabSection"
+  else if isStr ty "SHT_ARM_ATTRIBUTES" || isStr ty "SHT_RISCV_ATTRIBUTES" then do
+    init
+    let (fv, _) ← structParseAt env S.Elf_byte data (← sh.getNat "sh_offset")
+    if (← fv.asInt) != 0x41 then throw .elfError
+    return (if isStr ty "SHT_ARM_ATTRIBUTES" then "ARMAttributesSection" else "RISCVAttributesSection")
+  else if isStr ty "SHT_HASH" then do
+    linkedSymtab; init
+    let _ ← structParseAt env S.Elf_Hash data (← sh.getNat "sh_offset")
+    return "ELFHashSection"
+  else if isStr ty "SHT_GNU_HASH" then do
+    linkedSymtab; init
+    let _ ← structParseAt env S.Gnu_Hash data (← sh.getNat "sh_offset")
+    let _ ← sizeofR S.Elf_word
+    let _ ← sizeofR S.Elf_xword
+    return "GNUHashSection"
+  else if isStr ty "SHT_RELR" then do
+    init
+    if (← sizeofR S.Elf_Relr) != (← sh.getNat "sh_entsize") then throw .elfError
+    return "RelrRelocationSection"
+  else do init; return "Section"
+
+theorem makeSection_succ (sh : Val) :
+    makeSection env S data hdr shstr (fuel + 1) (some sh) = (do
+      let name ← getSectionName data shstr (some sh)
+      let ty ← sh.getField "sh_type"
+      let link ← sh.getNat "sh_link"
+      let k ← kindR env S data hdr shstr fuel sh ty link name
+      return (k, name)) := by
+  rw [makeSection]
+  rfl
+
+end pieces
+
+theorem typeIn_str {h : Val} {t : String} (names : List String)
+    (hty : h.getField "sh_type" = .ok (.str t)) : typeIn h names = names.contains t := by
+  simp [typeIn, hty]
+
+theorem typeIn_unpack {h : Val} {names : List String} (ht : typeIn h names = true) :
+    ∃ t, h.getField "sh_type" = .ok (.str t) ∧ t ∈ names := by
+  unfold typeIn at ht
+  split at ht
+  · rename_i t hty; exact ⟨t, hty, by simpa using ht⟩
+  · cases ht
+
+theorem typeIn_nonstr {h ty : Val} (names : List String) (hty : h.getField "sh_type" = .ok ty)
+    (hns : ∀ t, ty ≠ .str t) : typeIn h names = false := by
+  unfold typeIn
+  split
+  · rename_i t ht; rw [hty] at ht; cases ht; exact absurd rfl (hns t)
+  · rfl
+
+theorem isStr_nonstr {ty : Val} (hns : ∀ t, ty ≠ .str t) (s : String) : isStr ty s = false := by
+  cases ty <;> simp [isStr]
+  exact absurd rfl (hns _)
+
+theorem linkIs_unpack {env : Env} {d : ElfDesc} {fuel link : Nat} {types : List String}
+    (h : (match d.decHdr env link with
+          | some lh => typeIn lh types && d.secOk env fuel link
+          | none => false) = true) :
+    ∃ lh t, d.decHdr env link = some lh ∧ lh.getField "sh_type" = .ok (.str t) ∧ t ∈ types ∧
+      d.secOk env fuel link = true := by
+  cases hl : d.decHdr env link with
+  | none => simp [hl] at h
+  | some lh =>
+    simp only [hl, Bool.and_eq_true] at h
+    obtain ⟨t, ht, hm⟩ := typeIn_unpack h.1
+    exact ⟨lh, t, rfl, ht, hm, h.2⟩
+
+structure Setup (env : Env) (d : ElfDesc) (bytes : Bytes) (hdr st : Val) : Prop where
+  hw : WfFacts env d
+  hL : LayoutFacts d bytes
+  hf : HdrFacts d hdr
+  hst : d.decHdr env d.shstrndx = some st
+
+/-- induction hypothesis of the link recursion -/
+def MakeOk (env : Env) (d : ElfDesc) (bytes : Bytes) (hdr st : Val) (fuel : Nat) : Prop :=
+  ∀ i h, d.secOk env fuel i = true → d.decHdr env i = some h →
+    ∃ r, makeSection env d.S bytes hdr (some st) fuel (some h) = .ok r
+
+abbrev linkIsB (env : Env) (d : ElfDesc) (fuel link : Nat) (types : List String) : Bool :=
+  match d.decHdr env link with
+  | some lh => typeIn lh types && d.secOk env fuel link
+  | none => false
+
+theorem linkedStrtabR_ok {env : Env} {d : ElfDesc} {bytes : Bytes} {hdr st : Val}
+    (X : Setup env d bytes hdr st) {fuel : Nat} (IH : MakeOk env d bytes hdr st fuel) {link : Nat}
+    (hl : linkIsB env d fuel link ["SHT_STRTAB"] = true) :
+    linkedStrtabR env d.S bytes hdr (some st) fuel link = .ok () := by
+  obtain ⟨lh, t, hdec, hty, hm, hok⟩ := linkIs_unpack hl
+  obtain ⟨r, hr⟩ := IH link lh hok hdec
+  simp only [List.mem_cons, List.not_mem_nil, or_false] at hm
+  subst hm
+  unfold linkedStrtabR
+  simp [getSectionHeader_ok X.hw X.hL X.hf hdec, subscript, hty, isStr, hr, bind, Except.bind, pure, Except.pure]
+
+theorem linkedSymtabR_ok {env : Env} {d : ElfDesc} {bytes : Bytes} {hdr st : Val}
+    (X : Setup env d bytes hdr st) {fuel : Nat} (IH : MakeOk env d bytes hdr st fuel) {link : Nat}
+    (hl : linkIsB env d fuel link ["SHT_SYMTAB", "SHT_DYNSYM"] = true) :
+    linkedSymtabR env d.S bytes hdr (some st) fuel link = .ok () := by
+  obtain ⟨lh, t, hdec, hty, hm, hok⟩ := linkIs_unpack hl
+  obtain ⟨r, hr⟩ := IH link lh hok hdec
+  simp only [List.mem_cons, List.not_mem_nil, or_false] at hm
+  unfold linkedSymtabR
+  rcases hm with rfl | rfl <;>
+  simp [getSectionHeader_ok X.hw X.hL X.hf hdec, subscript, hty, isStr, hr, bind, Except.bind, pure, Except.pure]
+
+section branches
+variable {env : Env} {S : ElfStructs} {data : Bytes} {hdr : Val} {shstr : Option Val} {fuel : Nat}
+  {sh : Val} {link : Nat} {name : Bytes}
+
+theorem kindR_nonstr {ty : Val} (hns : ∀ t, ty ≠ .str t)
+    (hinit : sectionInit env S data sh = .ok ()) :
+    kindR env S data hdr shstr fuel sh ty link name = .ok (kindOf ty name) := by
+  have hk : kindOf ty name = "Section" := by
+    unfold kindOf
+    split <;> first | rfl | (exfalso; exact hns _ rfl)
+  simp [kindR, isStr_nonstr hns, hinit, hk, bind, Except.bind, pure, Except.pure]
+
+theorem kindR_simple {t : String} (ht : t ∈ ["SHT_STRTAB", "SHT_NULL", "SHT_SYMTAB_SHNDX", "SHT_NOTE"])
+    (hinit : sectionInit env S data sh = .ok ()) :
+    kindR env S data hdr shstr fuel sh (.str t) link name = .ok (kindOf (.str t) name) := by
+  simp only [List.mem_cons, List.not_mem_nil, or_false] at ht
+  rcases ht with rfl | rfl | rfl | rfl <;>
+    simp [kindR, isStr, hinit, kindOf, bind, Except.bind, pure, Except.pure]
+
+theorem kindR_symtab {t : String} (ht : t ∈ ["SHT_SYMTAB", "SHT_DYNSYM", "SHT_SUNW_LDYNSYM"])
+    (hinit : sectionInit env S data sh = .ok ())
+    (hlink : linkedStrtabR env S data hdr shstr fuel link = .ok ())
+    {es sz : Nat} (hes : sh.getNat "sh_entsize" = .ok es) (hsz : sh.getNat "sh_size" = .ok sz)
+    (h0 : 0 < es) (hmod : sz % es = 0) :
+    kindR env S data hdr shstr fuel sh (.str t) link name = .ok (kindOf (.str t) name) := by
+  simp only [List.mem_cons, List.not_mem_nil, or_false] at ht
+  rcases ht with rfl | rfl | rfl <;>
+    simp [kindR, isStr, hinit, hlink, hes, hsz, h0, hmod, kindOf, bind, Except.bind, pure, Except.pure]
+
+theorem kindR_linkSym {t : String} (ht : t ∈ ["SHT_SUNW_syminfo", "SHT_GNU_versym"])
+    (hinit : sectionInit env S data sh = .ok ())
+    (hlink : linkedSymtabR env S data hdr shstr fuel link = .ok ()) :
+    kindR env S data hdr shstr fuel sh (.str t) link name = .ok (kindOf (.str t) name) := by
+  simp only [List.mem_cons, List.not_mem_nil, or_false] at ht
+  rcases ht with rfl | rfl <;>
+    simp [kindR, isStr, hinit, hlink, kindOf, bind, Except.bind, pure, Except.pure]
+
+theorem kindR_linkStr {t : String} (ht : t ∈ ["SHT_GNU_verneed", "SHT_GNU_verdef"])
+    (hinit : sectionInit env S data sh = .ok ())
+    (hlink : linkedStrtabR env S data hdr shstr fuel link = .ok ()) :
+    kindR env S data hdr shstr fuel sh (.str t) link name = .ok (kindOf (.str t) name) := by
+  simp only [List.mem_cons, List.not_mem_nil, or_false] at ht
+  rcases ht with rfl | rfl <;>
+    simp [kindR, isStr, hinit, hlink, kindOf, bind, Except.bind, pure, Except.pure]
+
+theorem kindR_rel (hinit : sectionInit env S data sh = .ok ())
+    {es : Nat} (hes : sh.getNat "sh_entsize" = .ok es) (hsz : S.Elf_Rel.sizeof = some es) :
+    kindR env S data hdr shstr fuel sh (.str "SHT_REL") link name = .ok (kindOf (.str "SHT_REL") name) := by
+  simp [kindR, isStr, hinit, hes, sizeofR, hsz, kindOf, bind, Except.bind, pure, Except.pure]
+
+theorem kindR_rela (hinit : sectionInit env S data sh = .ok ())
+    {es : Nat} (hes : sh.getNat "sh_entsize" = .ok es) (hsz : S.Elf_Rela.sizeof = some es) :
+    kindR env S data hdr shstr fuel sh (.str "SHT_RELA") link name = .ok (kindOf (.str "SHT_RELA") name) := by
+  simp [kindR, isStr, hinit, hes, sizeofR, hsz, kindOf, bind, Except.bind, pure, Except.pure]
+
+theorem kindR_relr (hinit : sectionInit env S data sh = .ok ())
+    {es : Nat} (hes : sh.getNat "sh_entsize" = .ok es) (hsz : S.Elf_Relr.sizeof = some es) :
+    kindR env S data hdr shstr fuel sh (.str "SHT_RELR") link name = .ok (kindOf (.str "SHT_RELR") name) := by
+  simp [kindR, isStr, hinit, hes, sizeofR, hsz, kindOf, bind, Except.bind, pure, Except.pure]
+
+theorem kindR_dynamic (hinit : sectionInit env S data sh = .ok ())
+    {lh : Val} {t : String} (hget : getSectionHeader env S data hdr link = .ok (some lh))
+    (hty : lh.getField "sh_type" = .ok (.str t)) (ht : t ∈ ["SHT_STRTAB", "SHT_NOBITS"])
+    {r : String × Bytes} (hmk : makeSection env S data hdr shstr fuel (some lh) = .ok r)
+    {n : Nat} (hdyn : S.Elf_Dyn.sizeof = some n) :
+    kindR env S data hdr shstr fuel sh (.str "SHT_DYNAMIC") link name
+      = .ok (kindOf (.str "SHT_DYNAMIC") name) := by
+  simp only [List.mem_cons, List.not_mem_nil, or_false] at ht
+  rcases ht with rfl | rfl <;>
+    simp [kindR, isStr, hinit, hget, hty, hmk, sizeofR, hdyn, kindOf, bind, Except.bind, pure, Except.pure]
+
+theorem kindR_progbits (hinit : sectionInit env S data sh = .ok ()) :
+    kindR env S data hdr shstr fuel sh (.str "SHT_PROGBITS") link name
+      = .ok (kindOf (.str "SHT_PROGBITS") name) := by
+  unfold kindR kindOf
+  generalize ".stab".toUTF8.toList = stab
+  by_cases hn : name = stab
+  · simp [isStr, hinit, hn, bind, Except.bind, pure, Except.pure]
+  · have hn' : (name == stab) = false := by simpa using hn
+    simp [isStr, hinit, hn, hn', bind, Except.bind, pure, Except.pure]
+
+theorem kindR_attr {t : String} (ht : t ∈ ["SHT_ARM_ATTRIBUTES", "SHT_RISCV_ATTRIBUTES"])
+    (hinit : sectionInit env S data sh = .ok ())
+    {off p : Nat} (hoff : sh.getNat "sh_offset" = .ok off)
+    (hp : structParseAt env S.Elf_byte data off = .ok (.int 0x41, p)) :
+    kindR env S data hdr shstr fuel sh (.str t) link name = .ok (kindOf (.str t) name) := by
+  simp only [List.mem_cons, List.not_mem_nil, or_false] at ht
+  rcases ht with rfl | rfl <;>
+    simp [kindR, isStr, hinit, hoff, hp, Val.asInt, kindOf, bind, Except.bind, pure, Except.pure]
+
+theorem kindR_hash (hinit : sectionInit env S data sh = .ok ())
+    (hlink : linkedSymtabR env S data hdr shstr fuel link = .ok ())
+    {off : Nat} (hoff : sh.getNat "sh_offset" = .ok off) {r : Val × Nat}
+    (hp : structParseAt env S.Elf_Hash data off = .ok r) :
+    kindR env S data hdr shstr fuel sh (.str "SHT_HASH") link name = .ok (kindOf (.str "SHT_HASH") name) := by
+  simp [kindR, isStr, hinit, hlink, hoff, hp, kindOf, bind, Except.bind, pure, Except.pure]
+
+theorem kindR_gnuhash (hinit : sectionInit env S data sh = .ok ())
+    (hlink : linkedSymtabR env S data hdr shstr fuel link = .ok ())
+    {off : Nat} (hoff : sh.getNat "sh_offset" = .ok off) {r : Val × Nat}
+    (hp : structParseAt env S.Gnu_Hash data off = .ok r)
+    {n1 n2 : Nat} (h1 : S.Elf_word.sizeof = some n1) (h2 : S.Elf_xword.sizeof = some n2) :
+    kindR env S data hdr shstr fuel sh (.str "SHT_GNU_HASH") link name
+      = .ok (kindOf (.str "SHT_GNU_HASH") name) := by
+  simp [kindR, isStr, hinit, hlink, hoff, hp, sizeofR, h1, h2, kindOf, bind, Except.bind, pure, Except.pure]
+
+def knownTypes : List String :=
+  ["SHT_STRTAB", "SHT_NULL", "SHT_SYMTAB", "SHT_DYNSYM", "SHT_SUNW_LDYNSYM", "SHT_SYMTAB_SHNDX",
+   "SHT_SUNW_syminfo", "SHT_GNU_verneed", "SHT_GNU_verdef", "SHT_GNU_versym", "SHT_REL", "SHT_RELA",
+   "SHT_DYNAMIC", "SHT_NOTE", "SHT_PROGBITS", "SHT_ARM_ATTRIBUTES", "SHT_RISCV_ATTRIBUTES", "SHT_HASH",
+   "SHT_GNU_HASH", "SHT_RELR"]
+
+theorem kindR_other {t : String} (ht : t ∉ knownTypes)
+    (hinit : sectionInit env S data sh = .ok ()) :
+    kindR env S data hdr shstr fuel sh (.str t) link name = .ok (kindOf (.str t) name) := by
+  simp only [knownTypes, List.mem_cons, List.not_mem_nil, or_false, not_or] at ht
+  obtain ⟨h1, h2, h3, h4, h5, h6, h7, h8, h9, h10, h11, h12, h13, h14, h15, h16, h17, h18, h19, h20⟩ := ht
+  have hk : kindOf (.str t) name = "Section" := by
+    unfold kindOf
+    split <;> first | rfl | (exfalso; simp_all)
+  simp [kindR, isStr, bind, Except.bind, pure, Except.pure, *]
+
+end branches
+
+/-! ### tables a constructor parses on sight -/
+
+theorem parse_uint_len {env : Env} {data : Bytes} {pos n : Nat} {le : Bool} {ctx : Fields}
+    (h : pos + n ≤ data.length) :
+    Con.parse env data (.uint n le) ctx pos = .ok (.int (decNat le (readN data pos n)), pos + n, ctx) := by
+  have hl : (readN data pos n).length = n := by rw [readN_length]; omega
+  rw [Con.parse, readExact_of_len hl]; rfl
+
+theorem arrayLoop_uint_ok (env : Env) (data : Bytes) (n : Nat) (le : Bool) (ctx : Fields) :
+    ∀ (k pos : Nat) (acc : List Val), pos + k * n ≤ data.length →
+      ∃ v, arrayLoop (fun p c => Con.parse env data (.uint n le) c p) k pos ctx acc
+        = .ok (v, pos + k * n, ctx) := by
+  intro k
+  induction k with
+  | zero => intro pos acc _; exact ⟨.list acc.reverse, by simp [arrayLoop]⟩
+  | succ k ih =>
+    intro pos acc h
+    have hk : (k + 1) * n = n + k * n := by rw [Nat.succ_mul, Nat.add_comm]
+    rw [hk] at h
+    rw [arrayLoop, parse_uint_len (by omega)]
+    simp only
+    obtain ⟨v, hv⟩ := ih (pos + n) (Val.int (decNat le (readN data pos n)) :: acc) (by omega)
+    exact ⟨v, by rw [hv, hk, Nat.add_assoc]⟩
+
+theorem parse_array_ctx_uint {env : Env} {data : Bytes} {n : Nat} {le : Bool} {ctx : Fields} {key : String}
+    {k pos : Nat} (hk : Fields.get? ctx key = some (.int (k : Int))) (h : pos + k * n ≤ data.length) :
+    ∃ v, Con.parse env data (.array (.ctx key) (.uint n le)) ctx pos = .ok (v, pos + k * n, ctx) := by
+  rw [Con.parse]
+  simp only [Expr.eval, Fields.getR, hk, bind, Except.bind, Val.asInt, Int.toNat_natCast]
+  exact arrayLoop_uint_ok env data n le ctx k pos [] h
+
+theorem readN_of_prefix {data body rest : Bytes} {off a n : Nat} (hd : data.drop off = body ++ rest)
+    (h : a + n ≤ body.length) : readN data (off + a) n = readN body a n := by
+  unfold readN
+  rw [← List.drop_drop, hd, List.drop_append, List.take_append]
+  have : n - (body.drop a).length = 0 := by rw [List.length_drop]; omega
+  rw [this]
+  simp
+
+def hashCon (le : Bool) : Con :=
+  st [f "nbuckets" (.uint 4 le), f "nchains" (.uint 4 le), f "buckets" (.array (ctx "nbuckets") (.uint 4 le)),
+      f "chains" (.array (ctx "nchains") (.uint 4 le))]
+
+theorem hash_eq (c : ElfCfg) : (elfStructs c).Elf_Hash = hashCon c.le := rfl
+
+theorem parse_hash_ok (env : Env) (le : Bool) (data : Bytes) (pos : Nat) (h8 : pos + 8 ≤ data.length)
+    (h : pos + 8 + 4 * (decNat le (readN data pos 4) + decNat le (readN data (pos + 4) 4)) ≤ data.length) :
+    ∃ r, structParse env (hashCon le) data pos = .ok r := by
+  unfold structParse hashCon st
+  simp only [mkFields, f, ctx]
+  rw [Con.parse, Con.parseFields]
+  simp only [Bool.false_eq_true, if_false, bind, Except.bind]
+  rw [parse_uint_len (by omega)]
+  simp only
+  rw [Con.parseFields]
+  simp only [Bool.false_eq_true, if_false, bind, Except.bind]
+  rw [parse_uint_len (by omega)]
+  simp only
+  rw [Con.parseFields]
+  simp only [Bool.false_eq_true, if_false, bind, Except.bind]
+  generalize hv1 : decNat le (readN data pos 4) = v1 at h
+  generalize hv2 : decNat le (readN data (pos + 4) 4) = v2 at h
+  obtain ⟨a1, ha1⟩ := parse_array_ctx_uint (env := env) (data := data) (n := 4) (le := le)
+    (ctx := Fields.set (Fields.set [] "nbuckets" (Val.int v1)) "nchains" (Val.int v2))
+    (key := "nbuckets") (k := v1) (pos := pos + 4 + 4) (by simp [Fields.set, Fields.get?]) (by omega)
+  rw [ha1]
+  simp only
+  rw [Con.parseFields]
+  simp only [Bool.false_eq_true, if_false, bind, Except.bind]
+  obtain ⟨a2, ha2⟩ := parse_array_ctx_uint (env := env) (data := data) (n := 4) (le := le)
+    (ctx := Fields.set (Fields.set (Fields.set [] "nbuckets" (Val.int v1)) "nchains" (Val.int v2)) "buckets" a1)
+    (key := "nchains") (k := v2) (pos := pos + 4 + 4 + v1 * 4) (by simp [Fields.set, Fields.get?]) (by omega)
+  rw [ha2]
+  simp only [Con.parseFields]
+  exact ⟨_, rfl⟩
+
+def gnuHashCon (le : Bool) (w : Nat) : Con :=
+  st [f "nbuckets" (.uint 4 le), f "symoffset" (.uint 4 le), f "bloom_size" (.uint 4 le),
+      f "bloom_shift" (.uint 4 le), f "bloom" (.array (ctx "bloom_size") (.uint w le)),
+      f "buckets" (.array (ctx "nbuckets") (.uint 4 le))]
+
+theorem gnuHash_eq (c : ElfCfg) : (elfStructs c).Gnu_Hash = gnuHashCon c.le (c.cls / 8) := rfl
+
+theorem parse_gnuhash_ok (env : Env) (le : Bool) (w : Nat) (data : Bytes) (pos : Nat)
+    (h16 : pos + 16 ≤ data.length)
+    (h : pos + 16 + w * decNat le (readN data (pos + 8) 4) + 4 * decNat le (readN data pos 4) ≤ data.length) :
+    ∃ r, structParse env (gnuHashCon le w) data pos = .ok r := by
+  unfold structParse gnuHashCon st
+  simp only [mkFields, f, ctx]
+  rw [Con.parse, Con.parseFields]
+  simp only [Bool.false_eq_true, if_false, bind, Except.bind]
+  rw [parse_uint_len (by omega)]
+  simp only
+  rw [Con.parseFields]
+  simp only [Bool.false_eq_true, if_false, bind, Except.bind]
+  rw [parse_uint_len (by omega)]
+  simp only
+  rw [Con.parseFields]
+  simp only [Bool.false_eq_true, if_false, bind, Except.bind]
+  rw [parse_uint_len (by omega)]
+  simp only
+  rw [Con.parseFields]
+  simp only [Bool.false_eq_true, if_false, bind, Except.bind]
+  rw [parse_uint_len (by omega)]
+  simp only
+  rw [Con.parseFields]
+  simp only [Bool.false_eq_true, if_false, bind, Except.bind]
+  have e8 : pos + 4 + 4 = pos + 8 := by omega
+  rw [e8]
+  generalize hv0 : decNat le (readN data pos 4) = v0 at h
+  generalize hv1 : decNat le (readN data (pos + 4) 4) = v1
+  generalize hv2 : decNat le (readN data (pos + 8) 4) = v2 at h
+  generalize hv3 : decNat le (readN data (pos + 8 + 4) 4) = v3
+  obtain ⟨a1, ha1⟩ := parse_array_ctx_uint (env := env) (data := data) (n := w) (le := le)
+    (ctx := Fields.set (Fields.set (Fields.set (Fields.set [] "nbuckets" (Val.int v0)) "symoffset" (Val.int v1))
+      "bloom_size" (Val.int v2)) "bloom_shift" (Val.int v3))
+    (key := "bloom_size") (k := v2) (pos := pos + 8 + 4 + 4) (by simp [Fields.set, Fields.get?])
+    (by rw [Nat.mul_comm]; omega)
+  rw [ha1]
+  simp only
+  rw [Con.parseFields]
+  simp only [Bool.false_eq_true, if_false, bind, Except.bind]
+  obtain ⟨a2, ha2⟩ := parse_array_ctx_uint (env := env) (data := data) (n := 4) (le := le)
+    (ctx := Fields.set (Fields.set (Fields.set (Fields.set (Fields.set [] "nbuckets" (Val.int v0)) "symoffset" (Val.int v1))
+      "bloom_size" (Val.int v2)) "bloom_shift" (Val.int v3)) "bloom" a1)
+    (key := "nbuckets") (k := v0) (pos := pos + 8 + 4 + 4 + v2 * w) (by simp [Fields.set, Fields.get?])
+    (by rw [Nat.mul_comm v2 w]; omega)
+  rw [ha2]
+  simp only [Con.parseFields]
+  exact ⟨_, rfl⟩
+
+/-- the `k`-th 32-bit word of a section body -/
+def bodyWord (le : Bool) (body : Bytes) (k : Nat) : Nat := decNat le ((body.drop (4 * k)).take 4)
+
+theorem bodyWord_eq {data body : Bytes} {off : Nat} (le : Bool) (hr : readN data off body.length = body)
+    (k : Nat) (hk : 4 * k + 4 ≤ body.length) :
+    decNat le (readN data (off + 4 * k) 4) = bodyWord le body k := by
+  rw [readN_of_prefix (drop_of_readN hr) hk]; rfl
+
+theorem structParseAt_hash {env : Env} {d : ElfDesc} {data body : Bytes} {off : Nat}
+    (hr : readN data off body.length = body) (hoff : off < 2 ^ 63) (h8 : 8 ≤ body.length)
+    (h : 8 + 4 * (bodyWord d.le body 0 + bodyWord d.le body 1) ≤ body.length) :
+    ∃ r, structParseAt env d.S.Elf_Hash data off = .ok r := by
+  have hle : off + body.length ≤ data.length := by
+    rcases readN_le_length hr with h0 | h0
+    · rw [h0] at h8; simp at h8
+    · exact h0
+  have e0 := bodyWord_eq d.le hr 0 (by omega)
+  have e1 := bodyWord_eq d.le hr 1 (by omega)
+  simp only [Nat.mul_zero, Nat.add_zero, Nat.mul_one] at e0 e1
+  unfold structParseAt
+  have : ¬ off ≥ 2 ^ 63 := by omega
+  simp only [this, if_false]
+  have hS : d.S.Elf_Hash = hashCon d.le := rfl
+  rw [hS]
+  obtain ⟨r, hr'⟩ := parse_hash_ok env d.le data off (by omega) (by rw [e0, e1]; omega)
+  exact ⟨r, by simpa using hr'⟩
+
+theorem structParseAt_gnuhash {env : Env} {d : ElfDesc} {data body : Bytes} {off : Nat}
+    (hr : readN data off body.length = body) (hoff : off < 2 ^ 63) (h16 : 16 ≤ body.length)
+    (h : 16 + d.cls / 8 * bodyWord d.le body 2 + 4 * bodyWord d.le body 0 ≤ body.length) :
+    ∃ r, structParseAt env d.S.Gnu_Hash data off = .ok r := by
+  have hle : off + body.length ≤ data.length := by
+    rcases readN_le_length hr with h0 | h0
+    · rw [h0] at h16; simp at h16
+    · exact h0
+  have e0 := bodyWord_eq d.le hr 0 (by omega)
+  have e2 := bodyWord_eq d.le hr 2 (by omega)
+  simp only [Nat.mul_zero, Nat.add_zero] at e0 e2
+  unfold structParseAt
+  have : ¬ off ≥ 2 ^ 63 := by omega
+  simp only [this, if_false]
+  have hS : d.S.Gnu_Hash = gnuHashCon d.le (d.cls / 8) := rfl
+  rw [hS]
+  obtain ⟨r, hr'⟩ := parse_gnuhash_ok env d.le (d.cls / 8) data off (by omega) (by rw [e0, e2]; omega)
+  exact ⟨r, by simpa using hr'⟩
+
+theorem structParseAt_attr {env : Env} {d : ElfDesc} {data body : Bytes} {off : Nat}
+    (hr : readN data off body.length = body) (hoff : off < 2 ^ 63) (hh : body.head? = some 0x41) :
+    ∃ p, structParseAt env d.S.Elf_byte data off = .ok (.int 0x41, p) := by
+  cases body with
+  | nil => simp at hh
+  | cons b t =>
+    simp only [List.head?_cons, Option.some.injEq] at hh
+    subst hh
+    have hd := drop_of_readN hr
+    have hd1 : data.drop off = [0x41] ++ (t ++ data.drop (off + (0x41 :: t).length)) := by simpa using hd
+    unfold structParseAt structParse
+    have : ¬ off ≥ 2 ^ 63 := by omega
+    simp only [this, if_false]
+    have hS : d.S.Elf_byte = .uint 1 d.le := rfl
+    rw [hS]
+    simp only [bind, Except.bind, pure, Except.pure]
+    rw [parse_uint_ok (n := 1) hd1 rfl, decNat_singleton]
+    exact ⟨_, rfl⟩
+
+section cond
+variable {env : Env} {d : ElfDesc} {fuel : Nat} {s : SecDesc} {h : Val} {t : String}
+
+theorem secCond_symtab (ht : t ∈ ["SHT_SYMTAB", "SHT_DYNSYM", "SHT_SUNW_LDYNSYM"])
+    (hty : h.getField "sh_type" = .ok (.str t)) (hc : secCond env d fuel s h = true) :
+    linkIsB env d fuel (fieldNat h "sh_link") ["SHT_STRTAB"] = true ∧ 0 < fieldNat h "sh_entsize" ∧
+      fieldNat h "sh_size" % fieldNat h "sh_entsize" = 0 := by
+  unfold secCond at hc
+  simp only [typeIn_str _ hty] at hc
+  simp only [List.mem_cons, List.not_mem_nil, or_false] at ht
+  rcases ht with rfl | rfl | rfl <;> simpa [and_assoc] using hc
+
+theorem secCond_linkSym (ht : t ∈ ["SHT_SUNW_syminfo", "SHT_GNU_versym"])
+    (hty : h.getField "sh_type" = .ok (.str t)) (hc : secCond env d fuel s h = true) :
+    linkIsB env d fuel (fieldNat h "sh_link") ["SHT_SYMTAB", "SHT_DYNSYM"] = true := by
+  unfold secCond at hc
+  simp only [typeIn_str _ hty] at hc
+  simp only [List.mem_cons, List.not_mem_nil, or_false] at ht
+  rcases ht with rfl | rfl <;> simpa using hc
+
+theorem secCond_linkStr (ht : t ∈ ["SHT_GNU_verneed", "SHT_GNU_verdef"])
+    (hty : h.getField "sh_type" = .ok (.str t)) (hc : secCond env d fuel s h = true) :
+    linkIsB env d fuel (fieldNat h "sh_link") ["SHT_STRTAB"] = true := by
+  unfold secCond at hc
+  simp only [typeIn_str _ hty] at hc
+  simp only [List.mem_cons, List.not_mem_nil, or_false] at ht
+  rcases ht with rfl | rfl <;> simpa using hc
+
+theorem secCond_rel (hty : h.getField "sh_type" = .ok (.str "SHT_REL")) (hc : secCond env d fuel s h = true) :
+    fieldNat h "sh_entsize" = 2 * (d.cls / 8) := by
+  unfold secCond at hc
+  simp only [typeIn_str _ hty] at hc
+  simpa using hc
+
+theorem secCond_rela (hty : h.getField "sh_type" = .ok (.str "SHT_RELA")) (hc : secCond env d fuel s h = true) :
+    fieldNat h "sh_entsize" = 3 * (d.cls / 8) := by
+  unfold secCond at hc
+  simp only [typeIn_str _ hty] at hc
+  simpa using hc
+
+theorem secCond_relr (hty : h.getField "sh_type" = .ok (.str "SHT_RELR")) (hc : secCond env d fuel s h = true) :
+    fieldNat h "sh_entsize" = d.cls / 8 := by
+  unfold secCond at hc
+  simp only [typeIn_str _ hty] at hc
+  simpa using hc
+
+theorem secCond_dynamic (hty : h.getField "sh_type" = .ok (.str "SHT_DYNAMIC"))
+    (hc : secCond env d fuel s h = true) :
+    linkIsB env d fuel (fieldNat h "sh_link") ["SHT_STRTAB", "SHT_NOBITS"] = true := by
+  unfold secCond at hc
+  simp only [typeIn_str _ hty] at hc
+  simpa using hc
+
+theorem secCond_attr (ht : t ∈ ["SHT_ARM_ATTRIBUTES", "SHT_RISCV_ATTRIBUTES"])
+    (hty : h.getField "sh_type" = .ok (.str t)) (hc : secCond env d fuel s h = true) :
+    fieldNat h "sh_offset" < 2 ^ 63 ∧ (bodyOf s).head? = some 0x41 := by
+  unfold secCond at hc
+  simp only [typeIn_str _ hty] at hc
+  simp only [List.mem_cons, List.not_mem_nil, or_false] at ht
+  rcases ht with rfl | rfl <;> simpa using hc
+
+theorem secCond_hash (hty : h.getField "sh_type" = .ok (.str "SHT_HASH")) (hc : secCond env d fuel s h = true) :
+    linkIsB env d fuel (fieldNat h "sh_link") ["SHT_SYMTAB", "SHT_DYNSYM"] = true ∧
+      fieldNat h "sh_offset" < 2 ^ 63 ∧ 8 ≤ (bodyOf s).length ∧
+      8 + 4 * (bodyWord d.le (bodyOf s) 0 + bodyWord d.le (bodyOf s) 1) ≤ (bodyOf s).length := by
+  unfold secCond at hc
+  simp only [typeIn_str _ hty] at hc
+  simpa [and_assoc, bodyWord] using hc
+
+theorem secCond_gnuhash (hty : h.getField "sh_type" = .ok (.str "SHT_GNU_HASH"))
+    (hc : secCond env d fuel s h = true) :
+    linkIsB env d fuel (fieldNat h "sh_link") ["SHT_SYMTAB", "SHT_DYNSYM"] = true ∧
+      fieldNat h "sh_offset" < 2 ^ 63 ∧ 16 ≤ (bodyOf s).length ∧
+      16 + d.cls / 8 * bodyWord d.le (bodyOf s) 2 + 4 * bodyWord d.le (bodyOf s) 0 ≤ (bodyOf s).length := by
+  unfold secCond at hc
+  simp only [typeIn_str _ hty] at hc
+  simpa [and_assoc, bodyWord] using hc
+
+end cond
+
+theorem body_read {d : ElfDesc} {bytes : Bytes} (hL : LayoutFacts d bytes) {i : Nat}
+    (hi : i < d.sections.length) (hne : bodyOf (d.sections[i]) ≠ []) :
+    readN bytes (getNatD (d.sections[i]).hdr "sh_offset") (bodyOf (d.sections[i])).length
+      = bodyOf (d.sections[i]) := by
+  cases hb : (d.sections[i]).body with
+  | none => simp [bodyOf, hb] at hne
+  | some b =>
+    have := hL.body _ (List.getElem_mem hi) b hb
+    simpa [bodyOf, hb] using this
+
+theorem kindR_ok {env : Env} {d : ElfDesc} {bytes : Bytes} {hdr st : Val}
+    (X : Setup env d bytes hdr st) {fuel : Nat} (IH : MakeOk env d bytes hdr st fuel)
+    {i : Nat} (hi : i < d.sections.length) {h : Val} (hsf : SecFacts (d.sections[i]) h)
+    (hfl : fieldNat h "sh_flags" &&& 0x800 = 0) (hc : secCond env d fuel (d.sections[i]) h = true)
+    {ty : Val} (hty : h.getField "sh_type" = .ok ty) :
+    kindR env d.S bytes hdr (some st) fuel h ty (fieldNat h "sh_link") (d.sections[i]).name
+      = .ok (kindOf ty (d.sections[i]).name) := by
+  have hinit : sectionInit env d.S bytes h = .ok () := sectionInit_ok hsf hfl
+  have hes := hsf.nat "sh_entsize" (by simp [shdrNatKeys])
+  have hsz := hsf.nat "sh_size" (by simp [shdrNatKeys])
+  have hoff := hsf.nat "sh_offset" (by simp [shdrNatKeys])
+  have hoffraw := hsf.raw "sh_offset" (by simp [shdrNatKeys]) (by decide)
+  by_cases hns : ∀ t, ty ≠ .str t
+  · exact kindR_nonstr hns hinit
+  · have : ∃ t, ty = .str t := by
+      cases ty <;> first | exact ⟨_, rfl⟩ | (exfalso; apply hns; intro t ht; cases ht)
+    obtain ⟨t, rfl⟩ := this
+    by_cases hk : t ∈ knownTypes
+    · simp only [knownTypes, List.mem_cons, List.not_mem_nil, or_false] at hk
+      rcases hk with rfl | rfl | rfl | rfl | rfl | rfl | rfl | rfl | rfl | rfl | rfl | rfl | rfl | rfl | rfl |
+        rfl | rfl | rfl | rfl | rfl
+      · exact kindR_simple (by simp) hinit
+      · exact kindR_simple (by simp) hinit
+      · obtain ⟨h1, h2, h3⟩ := secCond_symtab (by simp) hty hc
+        exact kindR_symtab (by simp) hinit (linkedStrtabR_ok X IH h1) hes hsz h2 h3
+      · obtain ⟨h1, h2, h3⟩ := secCond_symtab (by simp) hty hc
+        exact kindR_symtab (by simp) hinit (linkedStrtabR_ok X IH h1) hes hsz h2 h3
+      · obtain ⟨h1, h2, h3⟩ := secCond_symtab (by simp) hty hc
+        exact kindR_symtab (by simp) hinit (linkedStrtabR_ok X IH h1) hes hsz h2 h3
+      · exact kindR_simple (by simp) hinit
+      · exact kindR_linkSym (by simp) hinit (linkedSymtabR_ok X IH (secCond_linkSym (by simp) hty hc))
+      · exact kindR_linkStr (by simp) hinit (linkedStrtabR_ok X IH (secCond_linkStr (by simp) hty hc))
+      · exact kindR_linkStr (by simp) hinit (linkedStrtabR_ok X IH (secCond_linkStr (by simp) hty hc))
+      · exact kindR_linkSym (by simp) hinit (linkedSymtabR_ok X IH (secCond_linkSym (by simp) hty hc))
+      · rw [secCond_rel hty hc] at hes
+        exact kindR_rel hinit hes (rel_sizeof d.cfg X.hw.cls).1
+      · rw [secCond_rela hty hc] at hes
+        exact kindR_rela hinit hes (rel_sizeof d.cfg X.hw.cls).2
+      · obtain ⟨lh, t, hdec, hlty, hm, hok⟩ := linkIs_unpack (secCond_dynamic hty hc)
+        obtain ⟨r, hr⟩ := IH _ lh hok hdec
+        obtain ⟨n, hn⟩ := dyn_sizeof d.cfg
+        exact kindR_dynamic hinit (getSectionHeader_ok X.hw X.hL X.hf hdec) hlty hm hr hn
+      · exact kindR_simple (by simp) hinit
+      · exact kindR_progbits hinit
+      · obtain ⟨h1, h2⟩ := secCond_attr (by simp) hty hc
+        have hne : bodyOf (d.sections[i]) ≠ [] := by intro e; rw [e] at h2; simp at h2
+        obtain ⟨p, hp⟩ := structParseAt_attr (env := env) (d := d) (body_read X.hL hi hne)
+          (by rw [← hoffraw]; exact h1) h2
+        rw [hoffraw] at hoff
+        exact kindR_attr (by simp) hinit hoff hp
+      · obtain ⟨h1, h2⟩ := secCond_attr (by simp) hty hc
+        have hne : bodyOf (d.sections[i]) ≠ [] := by intro e; rw [e] at h2; simp at h2
+        obtain ⟨p, hp⟩ := structParseAt_attr (env := env) (d := d) (body_read X.hL hi hne)
+          (by rw [← hoffraw]; exact h1) h2
+        rw [hoffraw] at hoff
+        exact kindR_attr (by simp) hinit hoff hp
+      · obtain ⟨h1, h2, h3, h4⟩ := secCond_hash hty hc
+        have hne : bodyOf (d.sections[i]) ≠ [] := by intro e; rw [e] at h3; simp at h3
+        obtain ⟨r, hr⟩ := structParseAt_hash (env := env) (d := d) (body_read X.hL hi hne)
+          (by rw [← hoffraw]; exact h2) h3 h4
+        rw [hoffraw] at hoff
+        exact kindR_hash hinit (linkedSymtabR_ok X IH h1) hoff hr
+      · obtain ⟨h1, h2, h3, h4⟩ := secCond_gnuhash hty hc
+        have hne : bodyOf (d.sections[i]) ≠ [] := by intro e; rw [e] at h3; simp at h3
+        obtain ⟨r, hr⟩ := structParseAt_gnuhash (env := env) (d := d) (body_read X.hL hi hne)
+          (by rw [← hoffraw]; exact h2) h3 h4
+        rw [hoffraw] at hoff
+        exact kindR_gnuhash hinit (linkedSymtabR_ok X IH h1) hoff hr (word_sizeof d.cfg) (xword_sizeof d.cfg)
+      · rw [secCond_relr hty hc] at hes
+        exact kindR_relr hinit hes (relr_sizeof d.cfg)
+    · exact kindR_other hk hinit
+
+theorem makeSection_ok {env : Env} {d : ElfDesc} {bytes : Bytes} {hdr st : Val}
+    (X : Setup env d bytes hdr st) :
+    ∀ fuel i h, d.secOk env fuel i = true → d.decHdr env i = some h →
+      ∃ (hi : i < d.sections.length) (ty : Val), h.getField "sh_type" = .ok ty ∧
+        makeSection env d.S bytes hdr (some st) fuel (some h)
+          = .ok (kindOf ty (d.sections[i]).name, (d.sections[i]).name) := by
+  intro fuel
+  induction fuel with
+  | zero => intro i h hok; simp [ElfDesc.secOk] at hok
+  | succ fuel ih =>
+    intro i h hok hdec
+    have IH : MakeOk env d bytes hdr st fuel := by
+      intro j hj hokj hdecj
+      obtain ⟨_, _, _, hr⟩ := ih j hj hokj hdecj
+      exact ⟨_, hr⟩
+    obtain ⟨hi, h', fuel', hfu, hdec', hsf, hfl, hc⟩ := sec_bundle X.hL hok
+    rw [hdec] at hdec'
+    cases hdec'
+    cases hfu
+    obtain ⟨ty, hty⟩ := hsf.ty
+    refine ⟨hi, ty, hty, ?_⟩
+    rw [makeSection_succ, getSectionName_ok X.hw X.hL X.hst hi hsf]
+    simp only [bind, Except.bind, hty, hsf.nat "sh_link" (by simp [shdrNatKeys])]
+    rw [kindR_ok X IH hi hsf hfl hc hty]
+    rfl
+
+/-! ### `get_section`, counts -/
+
+theorem getSection_ok {env : Env} {d : ElfDesc} {bytes : Bytes} {hdr st : Val}
+    (X : Setup env d bytes hdr st) {i : Nat} (hi : i < d.sections.length) :
+    ∃ h ty, d.decHdr env i = some h ∧ SecFacts (d.sections[i]) h ∧ h.getField "sh_type" = .ok ty ∧
+      getSection env d.S bytes hdr (some st) i
+        = .ok (kindOf ty (d.sections[i]).name, (d.sections[i]).name, h) := by
+  have hok := X.hw.secs i hi
+  obtain ⟨_, h, _, _, hdec, hsf, _, _⟩ := sec_bundle X.hL hok
+  obtain ⟨_, ty, hty, hmk⟩ := makeSection_ok X 4 i h hok hdec
+  refine ⟨h, ty, hdec, hsf, hty, ?_⟩
+  unfold getSection
+  simp only [getSectionHeader_ok X.hw X.hL X.hf hdec, hmk, bind, Except.bind]
+  rfl
+
+theorem numSections_ok {env : Env} {d : ElfDesc} {bytes : Bytes} {hdr : Val} (hw : WfFacts env d)
+    (hL : LayoutFacts d bytes) (hf : HdrFacts d hdr) :
+    numSections env d.S bytes hdr = .ok d.sections.length := by
+  unfold numSections
+  rw [hf.shoff, hf.shnum]
+  simp only [bind, Except.bind]
+  by_cases hn : d.sections.length = 0
+  · simp [hn, pure, Except.pure]
+  · have hpos : 0 < d.shoff := by
+      rcases hw.shpos with h | h
+      · exact absurd h hn
+      · exact h.1
+    have hne : ¬ d.shoff = 0 := by omega
+    simp only [hn, if_false, hne]
+    by_cases hx : (d.xShnum || decide (d.sections.length ≥ 0xff00)) = true
+    · obtain ⟨s0, hs0, hsize⟩ := (esc_facts hw.esc).shnum hx
+      obtain ⟨h0, rfl⟩ := List.getElem?_eq_some_iff.1 hs0
+      obtain ⟨_, h, _, _, hdec, hsf, _, _⟩ := sec_bundle hL (hw.secs 0 h0)
+      simp only [hx, if_true]
+      rw [getSectionHeader_ok hw hL hf hdec]
+      have h1 : (do let x ← h.getField "sh_size"; x.asNat) = h.getNat "sh_size" := rfl
+      simp only [bind, Except.bind] at h1
+      simp only [subscript, h1]
+      rw [hsf.nat "sh_size" (by simp [shdrNatKeys]), hsf.raw "sh_size" (by simp [shdrNatKeys]) (by decide), hsize]
+    · simp only [hx, Bool.false_eq_true, if_false, hn]
+      rfl
+
+theorem numSegments_noesc {env : Env} {d : ElfDesc} {bytes : Bytes} {hdr : Val} {shstr : Option Val}
+    (hf : HdrFacts d hdr) (hx : ¬ (d.xPhnum || decide (d.segments.length ≥ 0xffff)) = true) :
+    numSegments env d.S bytes hdr shstr = .ok d.segments.length := by
+  unfold numSegments
+  rw [hf.phnum]
+  have : d.segments.length < 0xffff := by
+    simp only [Bool.or_eq_true, decide_eq_true_eq, not_or] at hx
+    omega
+  simp [hx, this, bind, Except.bind, pure, Except.pure]
+
+theorem numSegments_esc {env : Env} {d : ElfDesc} {bytes : Bytes} {hdr st : Val}
+    (X : Setup env d bytes hdr st) (hx : (d.xPhnum || decide (d.segments.length ≥ 0xffff)) = true) :
+    numSegments env d.S bytes hdr (some st) = .ok d.segments.length := by
+  unfold numSegments
+  rw [X.hf.phnum]
+  obtain ⟨s0, hs0, hinfo⟩ := (esc_facts X.hw.esc).phnum hx
+  obtain ⟨h0, rfl⟩ := List.getElem?_eq_some_iff.1 hs0
+  obtain ⟨h, ty, _, hsf, _, hget⟩ := getSection_ok X h0
+  simp only [hx, if_true, bind, Except.bind, hget]
+  rw [hsf.nat "sh_info" (by simp [shdrNatKeys]), hsf.raw "sh_info" (by simp [shdrNatKeys]) (by decide), hinfo]
+  simp
+
+theorem openElf_fields {env : Env} {d : ElfDesc} {bytes : Bytes} {hdr : Val} {f : ElfFile}
+    (hw : WfFacts env d) (hL : LayoutFacts d bytes)
+    (hd : d.S.Elf_Ehdr.decodeRaw env [] d.ehdrRaw = .ok hdr)
+    (hopen : openElf env specSF specMC bytes = .ok f) :
+    f.data = bytes ∧ f.cls = d.cls ∧ f.le = d.le ∧ f.S = d.S ∧ f.header = hdr := by
+  obtain ⟨eh, he, hr⟩ := hL.ehdr
+  have hf := hdr_facts he hd
+  obtain ⟨p, hp⟩ := parse_ehdr_ok hL hd
+  unfold openElf at hopen
+  rw [identify_ok hw.cls he hr] at hopen
+  simp only [bind, Except.bind, specSF, hp, cfgOfHeader_ok hd hw.cfg hf] at hopen
+  have : elfStructs d.cfg = d.S := rfl
+  rw [this, getShstrndx_ok hw hL hf] at hopen
+  simp only at hopen
+  cases hg : getSectionHeader env d.S bytes hdr d.shstrndx with
+  | error e => simp [hg] at hopen
+  | ok o =>
+    cases o with
+    | none =>
+      simp only [hg, pure, Except.pure, Except.ok.injEq] at hopen
+      subst hopen
+      exact ⟨rfl, rfl, rfl, rfl, rfl⟩
+    | some st =>
+      simp only [hg] at hopen
+      cases hi : sectionInit env d.S bytes st with
+      | error e => simp [hi] at hopen
+      | ok u =>
+        simp only [hi, pure, Except.pure, Except.ok.injEq] at hopen
+        subst hopen
+        exact ⟨rfl, rfl, rfl, rfl, rfl⟩
+
+/-- everything the later theorems need from a successful open of a description with sections -/
+theorem open_setup {env : Env} {d : ElfDesc} {bytes : Bytes} {hdr : Val} {f : ElfFile}
+    (hw : WfFacts env d) (hL : LayoutFacts d bytes)
+    (hd : d.S.Elf_Ehdr.decodeRaw env [] d.ehdrRaw = .ok hdr)
+    (hopen : openElf env specSF specMC bytes = .ok f) (hn : 0 < d.sections.length) :
+    ∃ st, Setup env d bytes hdr st ∧ f.shstr = some st := by
+  obtain ⟨eh, he, hr⟩ := hL.ehdr
+  obtain ⟨st, hst, ho⟩ := openElf_ok_pos hw hL hd hn
+  rw [ho] at hopen
+  cases hopen
+  exact ⟨st, ⟨hw, hL, hdr_facts he hd, hst⟩, rfl⟩
+
+/-! ### the property theorems, over `specSF` / `specMC` -/
+
+theorem getSection_obs {env : Env} {d : ElfDesc} {bytes : Bytes} {hdr st : Val} {obs : ElfObs}
+    (X : Setup env d bytes hdr st) (ho : d.observe env = .ok obs) {i : Nat}
+    (hi : i < d.sections.length) (hi' : i < obs.sections.length) :
+    getSection env d.S bytes hdr (some st) i = .ok obs.sections[i] := by
+  obtain ⟨h, ty, hdec, -, hty, hget⟩ := getSection_ok X hi
+  obtain ⟨_, hdd⟩ := decHdr_some hdec
+  obtain ⟨-, h2, -⟩ := observe_inv ho
+  obtain ⟨-, hall⟩ := mapM_ok_inv _ _ _ h2
+  have := hall i hi hi'
+  unfold obsSec at this
+  simp only [hdd, hty, bind, Except.bind, pure, Except.pure, Except.ok.injEq] at this
+  rw [hget, this]
+
+theorem counts_aux {env : Env} {d : ElfDesc} {bytes : Bytes} {obs : ElfObs} {f : ElfFile}
+    (hwf : d.wf env = true) (hl : Layout d bytes) (ho : d.observe env = .ok obs)
+    (hf : openElf env specSF specMC bytes = .ok f) :
+    numSections env f.S bytes f.header = .ok d.sections.length ∧
+    numSegments env f.S bytes f.header f.shstr = .ok d.segments.length := by
+  have hw := wf_facts hwf
+  have hL := layout_facts hl
+  have hd := (observe_inv ho).1
+  obtain ⟨eh, he, -⟩ := hL.ehdr
+  have hF := hdr_facts he hd
+  obtain ⟨-, -, -, hS, hH⟩ := openElf_fields hw hL hd hf
+  rw [hS, hH]
+  refine ⟨numSections_ok hw hL hF, ?_⟩
+  by_cases hx : (d.xPhnum || decide (d.segments.length ≥ 0xffff)) = true
+  · obtain ⟨s0, hs0, -⟩ := (esc_facts hw.esc).phnum hx
+    obtain ⟨h0, -⟩ := List.getElem?_eq_some_iff.1 hs0
+    obtain ⟨st, X, hst⟩ := open_setup hw hL hd hf h0
+    rw [hst]
+    exact numSegments_esc X hx
+  · exact numSegments_noesc hF hx
+
+theorem get_section_aux {env : Env} {d : ElfDesc} {bytes : Bytes} {obs : ElfObs} {f : ElfFile}
+    (hwf : d.wf env = true) (hl : Layout d bytes) (ho : d.observe env = .ok obs)
+    (hf : openElf env specSF specMC bytes = .ok f) (i : Nat) (hi : i < d.sections.length) :
+    (getSection env f.S bytes f.header f.shstr i).toOption = obs.sections[i]? := by
+  have hw := wf_facts hwf
+  have hL := layout_facts hl
+  have hd := (observe_inv ho).1
+  obtain ⟨-, -, -, hS, hH⟩ := openElf_fields hw hL hd hf
+  obtain ⟨st, X, hst⟩ := open_setup hw hL hd hf (by omega)
+  have hlen : obs.sections.length = d.sections.length := (mapM_ok_inv _ _ _ (observe_inv ho).2.1).1
+  have hi' : i < obs.sections.length := by omega
+  rw [hS, hH, hst, getSection_obs X ho hi hi', List.getElem?_eq_getElem hi']
+  rfl
+
+theorem sections_aux {env : Env} {d : ElfDesc} {bytes : Bytes} {obs : ElfObs} {f : ElfFile}
+    (hwf : d.wf env = true) (hl : Layout d bytes) (ho : d.observe env = .ok obs)
+    (hf : openElf env specSF specMC bytes = .ok f) :
+    iterSections env f.S bytes f.header f.shstr = .ok obs.sections := by
+  have hw := wf_facts hwf
+  have hL := layout_facts hl
+  have hd := (observe_inv ho).1
+  have hlen : obs.sections.length = d.sections.length := (mapM_ok_inv _ _ _ (observe_inv ho).2.1).1
+  unfold iterSections
+  rw [(counts_aux hwf hl ho hf).1]
+  simp only [bind, Except.bind]
+  obtain ⟨-, -, -, hS, hH⟩ := openElf_fields hw hL hd hf
+  apply range_mapM_ok _ _ _ hlen
+  intro i hi
+  obtain ⟨st, X, hst⟩ := open_setup hw hL hd hf (by omega)
+  rw [hS, hH, hst]
+  exact getSection_obs X ho (by omega) hi
+
+/-! ### program headers and segments -/
+
+def phdrFields (c : ElfCfg) : ConFields :=
+  let le := c.le
+  let w := c.cls / 8
+  let word := Con.uint 4 le
+  let addr := Con.uint w le
+  if c.cls = 32 then
+    mkFields [f "p_type" (enumOf word (pTypeTable c.mclass)), f "p_offset" addr, f "p_vaddr" addr, f "p_paddr" addr,
+        f "p_filesz" word, f "p_memsz" word, f "p_flags" word, f "p_align" word]
+  else
+    mkFields [f "p_type" (enumOf word (pTypeTable c.mclass)), f "p_flags" word, f "p_offset" addr, f "p_vaddr" addr,
+        f "p_paddr" addr, f "p_filesz" addr, f "p_memsz" addr, f "p_align" addr]
+
+theorem phdr_eq (c : ElfCfg) : (elfStructs c).Elf_Phdr = .struct (phdrFields c) := by
+  simp only [elfStructs, phdrFields, st]
+  split <;> rfl
+
+theorem phdr_field_offset (c : ElfCfg) :
+    fieldCon (phdrFields c) "p_offset" = some (.uint (c.cls / 8) c.le) := by
+  unfold phdrFields
+  split <;> simp [mkFields, f, fieldCon, fieldNames]
+
+theorem phdr_field_type (c : ElfCfg) :
+    fieldCon (phdrFields c) "p_type" = some (.enum (.uint 4 c.le) (pTypeTable c.mclass) true) := by
+  unfold phdrFields
+  split <;> simp [mkFields, f, fieldCon, fieldNames, enumOf]
+
+theorem dS_phdr_fixed (d : ElfDesc) : d.S.Elf_Phdr.fixed = true := phdr_fixed d.cfg
+
+structure SegFacts (ph : Val) : Prop where
+  off : ∃ z : Nat, ph.getNat "p_offset" = .ok z
+  ty : ∃ t, ph.getField "p_type" = .ok t
+
+theorem seg_facts {env : Env} {d : ElfDesc} {p : Fields} {b : Bytes} {ph : Val}
+    (he : d.S.Elf_Phdr.encodeRaw (.record p) = some b) (hd : d.S.Elf_Phdr.decodeRaw env [] (.record p) = .ok ph) :
+    SegFacts ph := by
+  have hS : d.S.Elf_Phdr = .struct (phdrFields d.cfg) := phdr_eq d.cfg
+  rw [hS] at he hd
+  constructor
+  · obtain ⟨z, -, -, h2⟩ := uint_field (phdr_field_offset d.cfg) he hd
+    exact ⟨z, getNat_of_getField h2⟩
+  · obtain ⟨_, x, _, hx⟩ := struct_field_exists (phdr_field_type d.cfg) hd
+    exact ⟨x, hx⟩
+
+theorem getSegmentHeader_ok {env : Env} {d : ElfDesc} {bytes : Bytes} {hdr : Val} (hw : WfFacts env d)
+    (hL : LayoutFacts d bytes) (hf : HdrFacts d hdr) {i : Nat} (hi : i < d.segments.length) {ph : Val}
+    (hd : d.S.Elf_Phdr.decodeRaw env [] (.record d.segments[i]) = .ok ph) :
+    getSegmentHeader env d.S bytes hdr i = .ok ph := by
+  obtain ⟨b, hb, hr⟩ := hL.phdr i hi
+  have hm : d.segments.length ≠ 0 := by omega
+  have hsz := encodeRaw_length _ (dS_phdr_fixed d) _ _ hb
+  have hle : b.length ≤ d.phentsize := by
+    rcases hw.phent with h | h
+    · exact absurd h hm
+    · rw [hsz] at h; simpa using h
+  have hpos : d.phoff + i * d.phentsize < 2 ^ 63 := by
+    have := hw.phbound
+    have : i * d.phentsize ≤ d.segments.length * d.phentsize := Nat.mul_le_mul_right _ (by omega)
+    omega
+  unfold getSegmentHeader segmentOffset sizeofR
+  rw [hf.phentsize, hf.phoff, hsz]
+  have hlt : ¬ d.phentsize < b.length := by omega
+  simp only [bind, Except.bind, hlt, if_false, hm, pure, Except.pure]
+  rw [structParseAt_layout env _ (dS_phdr_fixed d) _ b hb bytes _ hr hpos, hd]
+  rfl
+
+theorem segKind_eq (ty : Val) :
+    (if isStr ty "PT_INTERP" then "InterpSegment"
+     else if isStr ty "PT_DYNAMIC" then "DynamicSegment"
+     else if isStr ty "PT_NOTE" then "NoteSegment" else "Segment") = segKindOf ty := by
+  cases ty <;> simp [isStr, segKindOf]
+  rename_i t
+  by_cases h1 : t = "PT_INTERP"
+  · subst h1; simp
+  · by_cases h2 : t = "PT_DYNAMIC"
+    · subst h2; simp
+    · by_cases h3 : t = "PT_NOTE"
+      · subst h3; simp
+      · simp [h1, h2, h3]
+
+theorem kindOf_dynamic {ty : Val} {name : Bytes} (h : kindOf ty name = "DynamicSection") :
+    ty = .str "SHT_DYNAMIC" := by
+  unfold kindOf at h
+  split at h
+  all_goals first | rfl | (simp at h; done) | (split at h <;> simp at h)
+
+theorem find_ok {env : Env} {d : ElfDesc} {bytes : Bytes} {hdr st : Val}
+    (X : Setup env d bytes hdr st) (poff : Nat) :
+    ∀ l : List Nat, (∀ i ∈ l, i < d.sections.length) →
+      makeSegment.find env d.S bytes hdr (some st) poff l = .ok () := by
+  intro l
+  induction l with
+  | nil => intro _; rfl
+  | cons i rest ih =>
+    intro hall
+    have hi := hall i (by simp)
+    obtain ⟨h, ty, hdec, hsf, hty, hget⟩ := getSection_ok X hi
+    rw [makeSegment.find]
+    simp only [hget, bind, Except.bind]
+    rw [hsf.nat "sh_offset" (by simp [shdrNatKeys])]
+    simp only
+    split
+    · -- a DynamicSection at the segment's offset: its string table is fetched
+      rename_i hcond
+      simp only [Bool.and_eq_true, beq_iff_eq] at hcond
+      have hok := X.hw.secs i hi
+      obtain ⟨_, h', fuel', hfu, hdec', _, _, hc⟩ := sec_bundle X.hL hok
+      rw [hdec] at hdec'; cases hdec'
+      have htd : ty = .str "SHT_DYNAMIC" := kindOf_dynamic hcond.1
+      subst htd
+      obtain ⟨lh, t, hldec, -, -, -⟩ := linkIs_unpack (secCond_dynamic hty hc)
+      obtain ⟨hli, -⟩ := decHdr_some hldec
+      obtain ⟨_, _, _, _, _, hget'⟩ := getSection_ok X hli
+      rw [hsf.nat "sh_link" (by simp [shdrNatKeys])]
+      simp only [hget', pure, Except.pure]
+    · exact ih (fun j hj => hall j (by simp [hj]))
+
+theorem makeSegment_ok {env : Env} {d : ElfDesc} {bytes : Bytes} {hdr : Val} {shstr : Option Val} {ph : Val}
+    (hw : WfFacts env d) (hL : LayoutFacts d bytes) (hf : HdrFacts d hdr) (hsf : SegFacts ph)
+    {ty : Val} (hty : ph.getField "p_type" = .ok ty)
+    (hfind : ∀ poff, makeSegment.find env d.S bytes hdr shstr poff (List.range d.sections.length) = .ok ()) :
+    makeSegment env d.S bytes hdr shstr ph = .ok (segKindOf ty) := by
+  obtain ⟨z, hz⟩ := hsf.off
+  obtain ⟨n1, hn1⟩ := dyn_sizeof d.cfg
+  obtain ⟨n2, hn2⟩ := sym_sizeof d.cfg
+  have hn1' : d.S.Elf_Dyn.sizeof = some n1 := hn1
+  have hn2' : d.S.Elf_Sym.sizeof = some n2 := hn2
+  unfold makeSegment
+  rw [← segKind_eq]
+  simp only [hty, bind, Except.bind]
+  by_cases h1 : isStr ty "PT_INTERP" = true
+  · simp [h1, pure, Except.pure]
+  · by_cases h2 : isStr ty "PT_DYNAMIC" = true
+    · simp [h1, h2, numSections_ok hw hL hf, hz, hfind, sizeofR, hn1', hn2', pure, Except.pure]
+    · by_cases h3 : isStr ty "PT_NOTE" = true
+      · simp [h1, h2, h3, pure, Except.pure]
+      · simp [h1, h2, h3, pure, Except.pure]
+
+theorem obsSeg_eq {env : Env} {d : ElfDesc} {p : Fields} {r : String × Val} (h : obsSeg env d p = .ok r) :
+    ∃ ph ty, d.S.Elf_Phdr.decodeRaw env [] (.record p) = .ok ph ∧ ph.getField "p_type" = .ok ty ∧
+      r = (segKindOf ty, ph) := by
+  unfold obsSeg at h
+  cases h1 : d.S.Elf_Phdr.decodeRaw env [] (.record p) with
+  | error e => simp [h1, bind, Except.bind] at h
+  | ok ph =>
+    cases h2 : ph.getField "p_type" with
+    | error e => simp [h1, h2, bind, Except.bind] at h
+    | ok ty =>
+      simp [h1, h2, bind, Except.bind, pure, Except.pure] at h
+      exact ⟨ph, ty, rfl, h2, h.symm⟩
+
+theorem segments_aux {env : Env} {d : ElfDesc} {bytes : Bytes} {obs : ElfObs} {f : ElfFile}
+    (hwf : d.wf env = true) (hl : Layout d bytes) (ho : d.observe env = .ok obs)
+    (hf : openElf env specSF specMC bytes = .ok f) :
+    iterSegments env f.S bytes f.header f.shstr = .ok obs.segments := by
+  have hw := wf_facts hwf
+  have hL := layout_facts hl
+  have hd := (observe_inv ho).1
+  obtain ⟨eh, he, -⟩ := hL.ehdr
+  have hF := hdr_facts he hd
+  obtain ⟨hlen, hall⟩ := mapM_ok_inv _ _ _ (observe_inv ho).2.2
+  unfold iterSegments
+  rw [(counts_aux hwf hl ho hf).2]
+  simp only [bind, Except.bind]
+  obtain ⟨-, -, -, hS, hH⟩ := openElf_fields hw hL hd hf
+  have hfind : ∀ poff, makeSegment.find env d.S bytes obs.header f.shstr poff
+      (List.range d.sections.length) = .ok () := by
+    intro poff
+    by_cases hn : d.sections.length = 0
+    · rw [hn]; rfl
+    · obtain ⟨st, X, hst⟩ := open_setup hw hL hd hf (by omega)
+      rw [hst]
+      exact find_ok X poff _ (fun i hi => by simpa using hi)
+  apply range_mapM_ok _ _ _ hlen
+  intro i hi
+  have hi' : i < d.segments.length := by omega
+  obtain ⟨ph, ty, hdec, hty, hr⟩ := obsSeg_eq (hall i hi' hi)
+  obtain ⟨b, hb, -⟩ := hL.phdr i hi'
+  rw [hS, hH]
+  unfold getSegment
+  rw [getSegmentHeader_ok hw hL hF hi' hdec]
+  simp only [bind, Except.bind]
+  rw [makeSegment_ok hw hL hF (seg_facts hb hdec) hty hfind, hr]
+  rfl
+
+/-! ### a file without section headers: `ELFFile()` reads "section 0" from the file header's bytes -/
+
+theorem and_0x800_of_testBit (x : Nat) (h : x.testBit 11 = false) : x &&& 0x800 = 0 := by
+  apply Nat.eq_of_testBit_eq
+  intro i
+  rw [Nat.testBit_and, show (0x800 : Nat) = 2 ^ 11 from rfl, Nat.testBit_two_pow]
+  by_cases hi : 11 = i
+  · subst hi; simp [h]
+  · simp [hi]
+
+theorem and_0x800_small (x : Nat) (h : x < 256) : x &&& 0x800 = 0 :=
+  and_0x800_of_testBit x (Nat.testBit_lt_two_pow (by omega))
+
+theorem and_0x800_shift (x k : Nat) (hk : 12 ≤ k) : (x * 2 ^ k) &&& 0x800 = 0 := by
+  apply and_0x800_of_testBit
+  rw [Nat.testBit_mul_two_pow]
+  have : ¬ k ≤ 11 := by omega
+  simp [this]
+
+theorem parse_enum_uint_ok {env : Env} {data : Bytes} {pos n : Nat} {le : Bool} {ctx : Fields} {t : String}
+    (h : pos + n ≤ data.length) :
+    ∃ v, Con.parse env data (.enum (.uint n le) t true) ctx pos = .ok (v, pos + n, ctx) := by
+  rw [Con.parse, parse_uint_len h]
+  simp only [bind, Except.bind]
+  cases env.enumDecode t (decNat le (readN data pos n)) <;> exact ⟨_, rfl⟩
+
+theorem parse_shdr_any (env : Env) (c : ElfCfg) (data : Bytes) (hlen : 16 + 6 * (c.cls / 8) ≤ data.length) :
+    ∃ v p, structParse env (elfStructs c).Elf_Shdr data 0 = .ok (v, p) ∧
+      v.getNat "sh_flags" = .ok (decNat c.le (readN data 8 (c.cls / 8))) := by
+  rw [shdr_eq]
+  unfold structParse shdrFields
+  simp only [mkFields, f, enumOf]
+  generalize c.cls / 8 = w at hlen ⊢
+  rw [Con.parse, Con.parseFields]
+  simp only [Bool.false_eq_true, if_false, bind, Except.bind]
+  rw [parse_uint_len (by omega)]
+  simp only
+  rw [Con.parseFields]
+  simp only [Bool.false_eq_true, if_false, bind, Except.bind]
+  obtain ⟨v1, hv1⟩ := parse_enum_uint_ok (env := env) (data := data) (pos := 0 + 4) (n := 4) (le := c.le)
+    (ctx := Fields.set [] "sh_name" (Val.int (decNat c.le (readN data 0 4)))) (t := shTypeTable c.mclass) (by omega)
+  rw [hv1]
+  simp only
+  rw [Con.parseFields]
+  simp only [Bool.false_eq_true, if_false, bind, Except.bind]
+  rw [parse_uint_len (by omega)]
+  simp only
+  rw [Con.parseFields]
+  simp only [Bool.false_eq_true, if_false, bind, Except.bind]
+  rw [parse_uint_len (by omega)]
+  simp only
+  rw [Con.parseFields]
+  simp only [Bool.false_eq_true, if_false, bind, Except.bind]
+  rw [parse_uint_len (by omega)]
+  simp only
+  rw [Con.parseFields]
+  simp only [Bool.false_eq_true, if_false, bind, Except.bind]
+  rw [parse_uint_len (by omega)]
+  simp only
+  rw [Con.parseFields]
+  simp only [Bool.false_eq_true, if_false, bind, Except.bind]
+  rw [parse_uint_len (by omega)]
+  simp only
+  rw [Con.parseFields]
+  simp only [Bool.false_eq_true, if_false, bind, Except.bind]
+  rw [parse_uint_len (by omega)]
+  simp only
+  rw [Con.parseFields]
+  simp only [Bool.false_eq_true, if_false, bind, Except.bind]
+  rw [parse_uint_len (by omega)]
+  simp only
+  rw [Con.parseFields]
+  simp only [Bool.false_eq_true, if_false, bind, Except.bind]
+  rw [parse_uint_len (by omega)]
+  simp only [Con.parseFields]
+  refine ⟨_, _, rfl, ?_⟩
+  simp [Val.getNat, Val.getField, Fields.getR, Fields.set, Fields.get?, bind, Except.bind, Val.asNat, Val.asInt]
+
+theorem enc_len_one {le : Bool} {c : Con} (hc : c = .uint 1 le ∨ ∃ t p, c = .enum (.uint 1 le) t p)
+    {v : Val} {a : Bytes} (h : c.encodeRaw v = some a) : ∃ b, a = [b] := by
+  have hl : a.length = 1 := by
+    rcases hc with rfl | ⟨t, p, rfl⟩
+    · have := el_uint 1 le v a h
+      simp [Con.sizeof] at this; omega
+    · rw [Con.encodeRaw] at h
+      have := el_uint 1 le v a h
+      simp [Con.sizeof] at this; omega
+  match a, hl with
+  | [b], _ => exact ⟨b, rfl⟩
+
+theorem ident_shape {d : ElfDesc} {a : Bytes}
+    (ha : ConFields.encodeRaw (identFields d.le) (identRawFields d) = some a) :
+    ∃ (x : Bytes) (b : UInt8), x.length = 8 ∧ a = x ++ b :: List.replicate 7 0 := by
+  simp only [identFields, mkFields, f, anon, enumOf] at ha
+  rw [ConFields.encodeRaw] at ha
+  obtain ⟨a1, b1, ha1, hb1, rfl⟩ := bind2_eq_some ha
+  rw [ConFields.encodeRaw] at hb1
+  obtain ⟨a2, b2, ha2, hb2, rfl⟩ := bind2_eq_some hb1
+  rw [ConFields.encodeRaw] at hb2
+  obtain ⟨a3, b3, ha3, hb3, rfl⟩ := bind2_eq_some hb2
+  rw [ConFields.encodeRaw] at hb3
+  obtain ⟨a4, b4, ha4, hb4, rfl⟩ := bind2_eq_some hb3
+  rw [ConFields.encodeRaw] at hb4
+  obtain ⟨a5, b5, ha5, hb5, rfl⟩ := bind2_eq_some hb4
+  rw [ConFields.encodeRaw] at hb5
+  obtain ⟨a6, b6, ha6, hb6, rfl⟩ := bind2_eq_some hb5
+  rw [ConFields.encodeRaw] at hb6
+  obtain ⟨a7, b7, ha7, hb7, rfl⟩ := bind2_eq_some hb6
+  have l1 : a1.length = 4 := by
+    have := el_con (.array (lit 4) (.uint 1 d.le)) rfl _ _ ha1
+    simp [Con.sizeof, lit, Expr.litNat?] at this; omega
+  obtain ⟨x2, rfl⟩ := enc_len_one (Or.inr ⟨_, _, rfl⟩) ha2
+  obtain ⟨x3, rfl⟩ := enc_len_one (Or.inr ⟨_, _, rfl⟩) ha3
+  obtain ⟨x4, rfl⟩ := enc_len_one (Or.inr ⟨_, _, rfl⟩) ha4
+  obtain ⟨x5, rfl⟩ := enc_len_one (Or.inr ⟨_, _, rfl⟩) ha5
+  obtain ⟨x6, rfl⟩ := enc_len_one (Or.inl rfl) ha6
+  have e7 : a7 = List.replicate 7 0 := by
+    simp [Con.encodeRaw, lit, Expr.litNat?] at ha7; exact ha7.symm
+  have e8 : b7 = [] := by simp [ConFields.encodeRaw] at hb7; exact hb7
+  subst e7 e8
+  exact ⟨a1 ++ [x2, x3, x4, x5], x6, by simp [l1], by simp⟩
+
+theorem ehdr_sizeof (c : ElfCfg) : (elfStructs c).Elf_Ehdr.sizeof = some (40 + 3 * (c.cls / 8)) := by
+  simp [elfStructs, st, mkFields, f, anon, Con.sizeof, ConFields.sizeof, enumOf, lit, Expr.litNat?]
+  omega
+
+theorem ehdr_shape {d : ElfDesc} {eh : Bytes} (he : d.S.Elf_Ehdr.encodeRaw d.ehdrRaw = some eh) :
+    eh.length = 40 + 3 * (d.cls / 8) ∧
+    ∃ (x : Bytes) (b : UInt8) (t : Bytes), x.length = 8 ∧ eh = x ++ b :: List.replicate 7 0 ++ t := by
+  constructor
+  · have := encodeRaw_length _ (dS_ehdr_fixed d) _ _ he
+    rw [show d.S.Elf_Ehdr.sizeof = _ from ehdr_sizeof d.cfg] at this
+    simp only [Option.some.injEq] at this
+    exact this.symm
+  · have hS : d.S.Elf_Ehdr = .struct (ehdrFields d.cfg) := rfl
+    rw [hS, ehdrRaw_eq, Con.encodeRaw] at he
+    simp only [ehdrFields, mkFields, f] at he
+    rw [ConFields.encodeRaw] at he
+    obtain ⟨a, b, ha, -, rfl⟩ := bind2_eq_some he
+    have : Fields.get? (ehdrRawFields d) "e_ident" = some (.record (identRawFields d)) := by
+      simp [ehdrRawFields, Fields.get?]
+    rw [this] at ha
+    simp only [Option.getD_some, Con.encodeRaw] at ha
+    obtain ⟨x, b0, hx, rfl⟩ := ident_shape ha
+    exact ⟨x, b0, b, hx, by simp⟩
+
+theorem flags_of_ehdr_bytes (le : Bool) (b : UInt8) (w : Nat) (hw : w = 4 ∨ w = 8) :
+    decNat le ((b :: List.replicate 7 0).take w) &&& 0x800 = 0 := by
+  have hb := b.toNat_lt
+  rcases hw with rfl | rfl <;> cases le
+  · have : decNat false ((b :: List.replicate 7 0).take 4) = b.toNat * 2 ^ 24 := by
+      simp [decNat, beNat, leNat, List.replicate]; omega
+    rw [this]; exact and_0x800_shift _ _ (by omega)
+  · have : decNat true ((b :: List.replicate 7 0).take 4) = b.toNat := by
+      simp [decNat, leNat, List.replicate]
+    rw [this]; exact and_0x800_small _ (by omega)
+  · have : decNat false ((b :: List.replicate 7 0).take 8) = b.toNat * 2 ^ 56 := by
+      simp [decNat, beNat, leNat, List.replicate]; omega
+    rw [this]; exact and_0x800_shift _ _ (by omega)
+  · have : decNat true ((b :: List.replicate 7 0).take 8) = b.toNat := by
+      simp [decNat, leNat, List.replicate]
+    rw [this]; exact and_0x800_small _ (by omega)
+
+theorem ehdr_as_shdr {env : Env} {d : ElfDesc} {bytes eh : Bytes} (hcls : d.cls = 32 ∨ d.cls = 64)
+    (he : d.S.Elf_Ehdr.encodeRaw d.ehdrRaw = some eh) (hr : readN bytes 0 eh.length = eh) :
+    ∃ v p, structParseAt env d.S.Elf_Shdr bytes 0 = .ok (v, p) ∧ sectionInit env d.S bytes v = .ok () := by
+  obtain ⟨hlen, x, b, t, hx, rfl⟩ := ehdr_shape he
+  have hb := drop_of_readN hr
+  simp only [List.drop_zero, Nat.zero_add] at hb
+  have hbl : 40 + 3 * (d.cls / 8) ≤ bytes.length := by
+    have := congrArg List.length hb
+    rw [List.length_append, hlen] at this
+    omega
+  have hw : d.cls / 8 = 4 ∨ d.cls / 8 = 8 := by rcases hcls with h | h <;> simp [h]
+  obtain ⟨v, p, hp, hfl⟩ := parse_shdr_any env d.cfg bytes (by
+    show 16 + 6 * (d.cls / 8) ≤ bytes.length
+    rcases hw with h | h <;> omega)
+  have hread : readN bytes 8 (d.cls / 8) = (b :: List.replicate 7 0).take (d.cls / 8) := by
+    unfold readN
+    rw [hb]
+    have : x ++ b :: List.replicate 7 0 ++ t ++ List.drop (x ++ b :: List.replicate 7 0 ++ t).length bytes
+        = x ++ ((b :: List.replicate 7 0) ++ (t ++ List.drop (x ++ b :: List.replicate 7 0 ++ t).length bytes)) := by
+      simp
+    rw [this, List.drop_left' hx, List.take_append_of_le_length]
+    rcases hw with h | h <;> simp [h]
+  refine ⟨v, p, ?_, ?_⟩
+  · unfold structParseAt
+    simp only [show ¬ (0 ≥ 2 ^ 63) by omega, if_false]
+    exact hp
+  · unfold sectionInit
+    have : d.cfg.le = d.le := rfl
+    have hc : d.cfg.cls = d.cls := rfl
+    rw [hfl, hc, this, hread]
+    have hz := flags_of_ehdr_bytes d.le b _ hw
+    simp only [bind, Except.bind, hz]
+    rfl
+
+theorem openElf_ok_zero {env : Env} {d : ElfDesc} {bytes : Bytes} {hdr : Val} (hw : WfFacts env d)
+    (hL : LayoutFacts d bytes) (hd : d.S.Elf_Ehdr.decodeRaw env [] d.ehdrRaw = .ok hdr)
+    (hn : d.sections.length = 0) : ∃ f, openElf env specSF specMC bytes = .ok f := by
+  obtain ⟨eh, he, hr⟩ := hL.ehdr
+  have hf := hdr_facts he hd
+  obtain ⟨p, hp⟩ := parse_ehdr_ok hL hd
+  obtain ⟨v, q, hv, hinit⟩ := ehdr_as_shdr (env := env) hw.cls he hr
+  have hget : getSectionHeader env d.S bytes hdr d.shstrndx = .ok (some v) := by
+    unfold getSectionHeader
+    rw [sectionOffset_ok hw hf, hw.noshstr hn]
+    simp only [hn, if_true, Nat.zero_mul, Nat.add_zero, bind, Except.bind]
+    simp only [show ¬ (0 > bytes.length) by omega, if_false, hv]
+    rfl
+  unfold openElf
+  rw [identify_ok hw.cls he hr]
+  simp only [bind, Except.bind, specSF, hp, cfgOfHeader_ok hd hw.cfg hf]
+  have : elfStructs d.cfg = d.S := rfl
+  rw [this, getShstrndx_ok hw hL hf]
+  simp only [hget, hinit]
+  exact ⟨_, rfl⟩
+
+theorem open_aux {env : Env} {d : ElfDesc} {bytes : Bytes} {obs : ElfObs}
+    (hwf : d.wf env = true) (hl : Layout d bytes) (ho : d.observe env = .ok obs) :
+    ∃ f, openElf env specSF specMC bytes = .ok f ∧
+      f.data = bytes ∧ f.cls = d.cls ∧ f.le = d.le ∧ f.S = d.S ∧ f.header = obs.header := by
+  have hw := wf_facts hwf
+  have hL := layout_facts hl
+  have hd := (observe_inv ho).1
+  have hex : ∃ f, openElf env specSF specMC bytes = .ok f := by
+    by_cases hn : d.sections.length = 0
+    · exact openElf_ok_zero hw hL hd hn
+    · obtain ⟨st, -, h⟩ := openElf_ok_pos hw hL hd (by omega)
+      exact ⟨_, h⟩
+  obtain ⟨f, hf⟩ := hex
+  exact ⟨f, hf, openElf_fields hw hL hd hf⟩
+
+/-! ### the assembler -/
+
+theorem layOut_prefix : ∀ (rs : List (Nat × Bytes)) (acc : Bytes), ∃ ext, layOut rs acc = acc ++ ext := by
+  intro rs
+  induction rs with
+  | nil => intro acc; exact ⟨[], by simp [layOut]⟩
+  | cons r rs ih =>
+    intro acc
+    obtain ⟨off, b⟩ := r
+    obtain ⟨ext, he⟩ := ih (acc ++ List.replicate (off - acc.length) 0 ++ b)
+    exact ⟨List.replicate (off - acc.length) 0 ++ b ++ ext, by rw [layOut, he]; simp⟩
+
+theorem readN_append_left {a ext : Bytes} {off n : Nat} (h : off + n ≤ a.length) :
+    readN (a ++ ext) off n = readN a off n := by
+  unfold readN
+  rw [List.drop_append_of_le_length (by omega), List.take_append_of_le_length (by rw [List.length_drop]; omega)]
+
+theorem layOut_reads : ∀ (rs : List (Nat × Bytes)) (acc : Bytes), regionsDisjoint rs = true →
+    (∀ r ∈ rs.head?, acc.length ≤ r.1) →
+    ∀ r ∈ rs, readN (layOut rs acc) r.1 r.2.length = r.2 := by
+  intro rs
+  induction rs with
+  | nil => intro acc _ _ r hr; simp at hr
+  | cons r0 rs ih =>
+    intro acc hd hacc r hr
+    obtain ⟨off, b⟩ := r0
+    have hle : acc.length ≤ off := hacc (off, b) (by simp)
+    have hlen : (acc ++ List.replicate (off - acc.length) 0 ++ b).length = off + b.length := by
+      simp; omega
+    rw [layOut]
+    rcases List.mem_cons.1 hr with rfl | hr'
+    · obtain ⟨ext, he⟩ := layOut_prefix rs (acc ++ List.replicate (off - acc.length) 0 ++ b)
+      rw [he, readN_append_left (by rw [hlen]; simp)]
+      unfold readN
+      have : (acc ++ List.replicate (off - acc.length) 0).length = off := by simp; omega
+      rw [List.drop_left' this]
+      simp
+    · apply ih _ ?_ ?_ r hr'
+      · cases rs with
+        | nil => rfl
+        | cons r1 rs' =>
+          obtain ⟨o1, b1⟩ := r1
+          simp only [regionsDisjoint, Bool.and_eq_true] at hd
+          exact hd.2
+      · intro r1 hr1
+        cases rs with
+        | nil => simp at hr1
+        | cons r1' rs' =>
+          obtain ⟨o1, b1⟩ := r1'
+          simp only [List.head?_cons, Option.mem_def, Option.some.injEq] at hr1
+          subst hr1
+          simp only [regionsDisjoint, Bool.and_eq_true, decide_eq_true_eq] at hd
+          rw [hlen]; exact hd.1
+
+theorem readN_append_right_pad {a ext : Bytes} {off : Nat} {b : Bytes}
+    (h : readN a off b.length = b) : readN (a ++ ext) off b.length = b := by
+  rcases readN_le_length h with h0 | h0
+  · subst h0; simp [readN]
+  · rw [readN_append_left h0, h]
+
+theorem assemble_layout_aux {env : Env} {d : ElfDesc} {tail : Nat} {bytes : Bytes}
+    (hwf : d.wf env = true) (h : d.assemble tail = some bytes) : Layout d bytes := by
+  obtain ⟨rs, hrs, hdisj⟩ := (wf_facts hwf).disj
+  unfold ElfDesc.assemble at h
+  simp only [hrs, Option.bind_eq_bind, Option.bind_some, Option.pure_def, Option.some.injEq] at h
+  subst h
+  refine ⟨rs, hrs, ?_⟩
+  intro r hr
+  have hmem : r ∈ sortRegions rs := by
+    unfold sortRegions
+    exact (List.mergeSort_perm rs _).mem_iff.2 hr
+  apply readN_append_right_pad
+  exact layOut_reads (sortRegions rs) [] hdisj (fun _ _ => Nat.zero_le _) r hmem
+
 end PyElf.Proofs
